@@ -11,6 +11,20 @@ import NemoVerif.Lemmas.Dnf
 import NemoVerif.Lemmas.GroupExpand
 import NemoVerif.Lemmas.GroupVM
 import NemoVerif.Lemmas.GroupExpandAwait
+import NemoVerif.Lemmas.GroupExpandWhen
+import NemoVerif.Lemmas.GroupFlowVM
+import NemoVerif.Lemmas.GroupCoreVMCompose
+import NemoVerif.Lemmas.GroupCoreVMTemplate
+import NemoVerif.Lemmas.GroupCoreVMEvent
+import NemoVerif.Lemmas.GroupCoreVMPick
+import NemoVerif.Lemmas.GroupCoreVMLoop
+import NemoVerif.Lemmas.GroupCoreVMRun
+import NemoVerif.Lemmas.GroupCoreVMStart
+import NemoVerif.Lemmas.GroupCoreVMOrRun
+import NemoVerif.Lemmas.GroupCoreVMExit
+import NemoVerif.Lemmas.GroupCoreVMOrStart
+import NemoVerif.Lemmas.GroupCoreVMMirror
+import NemoVerif.Lemmas.GroupCoreVMAdvance
 namespace NemoVerif.C07
 open NemoVerif NemoVerif.Dnf NemoVerif.GroupExpand NemoVerif.GroupVM
 
@@ -188,6 +202,391 @@ theorem merging_always_completes (fuel : Nat) (vm : VM) (queue : List QItem) (ch
       is not mirrored (ops when / whenmix / when2 / whenf: execution + oracle only).
 -/
 
+/-! ## GroupVM ⇔ CoreVM (T2', partial): phase 1 on and-clauses / or-groups of ANY size
+
+  CoreVM (Models/CoreVM, import-only) is the whole-interpreter model: `slide`, `_advance_head_front`, `run_to_completion` over
+  the real expanded program.  Proved here over CoreVM's `slide` itself (Lemmas/GroupCoreVM.lean, Lemmas/GroupCoreVMCompose.lean):
+
+  * one-step lemmas `slideStep_goto / _wait_parks / _wait_passes / _merge_active` (closed-form result states: ONE guarded index
+    operation each), the CLAUSE SEGMENT `clause_segment_parks / _passes` (`goto end → WaitForHeads n [→ MergeHeads]`, parametric
+    in `n` and in the program) and the or-branch segment `branch_segment_merges`;
+  * their composition over all members of a clause, by induction on the clause: the two theorems below.
+
+  FULL statement that stays open (kept visible):
+      groupvm_is_corevm : for `cfg.elements = expandMatch g ++ [send marker, match never]`, every event `e` and every recorded
+        tie-break list, `CoreVM.runToCompletion` maps a state whose main-flow heads are `renderHeads d vm` to one whose heads are
+        `renderHeads d (GroupVM.stepEvent vm e choices).1`, emitting the marker iff `(GroupVM.stepEvent vm e choices).2.1`.
+  Missing for it: the FORK segment (`ForkHead` creating the heads, `_advance_head_front` moving them onto their `match`
+  elements — needs `getEventName` for the index entry), the MERGE segment (`MergeHeads` on a MERGING head: candidate list through
+  `get_child_head_uids`, `random.choice`, deletion loop) and the event loop of `runToCompletion` (matching heads through the
+  index, `_advance_head_front`'s bookkeeping around `slide`, the merging loop).  These stay tied by execution on every run: for every
+  generated `match` case the heads (position, status) of the REAL interpreter, of GroupVM and of CoreVM (`CoreVMJson.run` on the
+  real expanded program with the recorded tie-breaks) agree after every event. -/
+
+/-- **groupvm_is_corevm_partial (and-clause, phase 1).**  A flow instance of CoreVM whose heads are `others` (e.g. the INACTIVE
+    forking head; none of them parked on the wait element) followed by the member heads of one and-clause in the states `ms` that
+    `GroupVM` keeps for them; the program has, for every member, `match …; goto l` and at the end label `WaitForHeads n;
+    MergeHeads` (`ClauseShape`, `MembersShape` — the and-template of `_expand_match_element`).  Advancing in order the member heads
+    that wait on `match e` the way `_advance_head_front` does (`head.position += 1; slide`) yields exactly
+    `GroupVM.p1Members e n [] ms` — a head passes `WaitForHeads n` iff the heads parked there, itself included, are at least `n` —
+    and changes nothing else.  Any clause size, any `n`. -/
+theorem groupvm_is_corevm_partial (fuel : Nat) (s : CoreVM.VM) (f : CoreIndex.FUid) (i : CoreIndex.Inst) (x : CoreVM.InstX)
+    (cfg : CoreVM.FlowCfg) (l mu : String) (pe n e : Nat)
+    (others : List CoreVM.HCore) (us : List (CoreIndex.HUid × Nat)) (ms : List (Nat × MLoc))
+    (F : CoreVM.FlowAt s f i x cfg) (hown : x.ctxOwner = none) (C : CoreVM.ClauseShape cfg l mu pe n)
+    (S : CoreVM.MembersShape cfg l pe us)
+    (hlen : us.length = ms.length) (hnd : (others.map (·.1) ++ us.map (·.1)).Nodup)
+    (hoth : others.filter (CoreVM.liveAt (pe + 1)) = [])
+    (hv : CoreVM.hview i = others ++ CoreVM.renderU (pe + 1) us ms) :
+    ∃ s' i', CoreVM.runMembers (fuel + 3) f (CoreVM.matchingU e us ms) s = .ok () s' ∧ CoreVM.FlowAt s' f i' x cfg ∧ s'.r = s.r ∧
+      CoreVM.hview i' = others ++ CoreVM.renderU (pe + 1) us (p1Members e n [] ms) :=
+  CoreVM.and_clause_phase1 fuel s f i x cfg l mu pe n e others us ms F hown C S hlen hnd hoth hv
+
+/-- The same with the program hypotheses discharged for what the mirrored generator emits: the flow configuration contains
+    `expandAnd c k` (the and-template of `_expand_match_element` for a clause of at least two atoms), translated element by element,
+    at some offset `B`, and its label table resolves the end label.  Then phase 1 of `GroupVM` with `need = |c|` is what CoreVM does
+    on the member heads (match positions `B + 3 + 3j`), for every clause `c`. -/
+theorem groupvm_is_corevm_partial_expandAnd (fuel : Nat) (s : CoreVM.VM) (f : CoreIndex.FUid) (i : CoreIndex.Inst) (x : CoreVM.InstX)
+    (cfg : CoreVM.FlowCfg) (spec : Nat → CoreVM.Spec) (B k e : Nat) (c : List Nat) (h2 : 2 ≤ c.length)
+    (others : List CoreVM.HCore) (uids : List CoreIndex.HUid) (ms : List (Nat × MLoc))
+    (F : CoreVM.FlowAt s f i x cfg) (hown : x.ctxOwner = none)
+    (hc : CoreVM.ContainsAt cfg spec B (expandAnd c k).1)
+    (hl : cfg.label (CoreVM.nmOf (k + 2)) = some (B + 2 + 3 * c.length + 4))
+    (hu : uids.length = c.length) (hlen : uids.length = ms.length)
+    (hnd : (others.map (·.1) ++ (uids.zipIdx.map fun p => (p.1, B + 3 + 3 * p.2)).map (·.1)).Nodup)
+    (hoth : others.filter (CoreVM.liveAt (B + 2 + 3 * c.length + 4 + 1)) = [])
+    (hv : CoreVM.hview i = others ++ CoreVM.renderU (B + 2 + 3 * c.length + 4 + 1) (uids.zipIdx.map fun p => (p.1, B + 3 + 3 * p.2)) ms) :
+    ∃ s' i', CoreVM.runMembers (fuel + 3) f (CoreVM.matchingU e (uids.zipIdx.map fun p => (p.1, B + 3 + 3 * p.2)) ms) s = .ok () s' ∧
+      CoreVM.FlowAt s' f i' x cfg ∧ s'.r = s.r ∧
+      CoreVM.hview i' = others ++ CoreVM.renderU (B + 2 + 3 * c.length + 4 + 1) (uids.zipIdx.map fun p => (p.1, B + 3 + 3 * p.2))
+        (p1Members e c.length [] ms) := by
+  obtain ⟨C, S⟩ := CoreVM.shapes_of_expandAnd cfg spec B k c h2 uids hu hc hl
+  exact CoreVM.and_clause_phase1 fuel s f i x cfg _ _ _ c.length e others _ ms F hown C S (by simpa using hlen) hnd hoth hv
+
+/-- **groupvm_is_corevm_partial (or-group of single atoms, phase 1).**  The same for the branch heads of an or-group whose clauses
+    are single atoms (any number of branches): the heads that wait on `match e` end MERGING on the or-level `MergeHeads`, exactly
+    `GroupVM.p1Brs e 0 brs`. -/
+theorem groupvm_is_corevm_partial_or (fuel : Nat) (s : CoreVM.VM) (f : CoreIndex.FUid) (i : CoreIndex.Inst) (x : CoreVM.InstX)
+    (cfg : CoreVM.FlowCfg) (l mu : String) (pe e : Nat)
+    (others : List CoreVM.HCore) (us : List (CoreIndex.HUid × Nat)) (brs : List Br)
+    (F : CoreVM.FlowAt s f i x cfg) (hown : x.ctxOwner = none) (C : CoreVM.OrShape cfg l mu pe) (S : CoreVM.MembersShape cfg l pe us)
+    (hlen : us.length = brs.length) (hnm : CoreVM.noMulti brs = true) (hnd : (others.map (·.1) ++ us.map (·.1)).Nodup)
+    (hv : CoreVM.hview i = others ++ CoreVM.renderB (pe + 1) us brs) :
+    ∃ s' i', CoreVM.runMembers (fuel + 2) f (CoreVM.matchingB e us brs) s = .ok () s' ∧ CoreVM.FlowAt s' f i' x cfg ∧ s'.r = s.r ∧
+      CoreVM.hview i' = others ++ CoreVM.renderB (pe + 1) us (p1Brs e 0 brs).1 ∧ i'.status = i.status :=
+  CoreVM.or_group_phase1 fuel s f i x cfg l mu pe e others us brs F hown C S hlen hnm hnd hv
+
+/-- **groupvm_is_corevm_partial (fork segment).**  The root head ACTIVE on `CatchPatternFailure fl; ForkHead u [l_1 … l_n]`, every
+    label followed by `match <plain event>`: CoreVM's `slide` hands back `n` new heads with fresh uids; advancing them in order
+    (`_advance_head_front(new_heads)`) leaves the root INACTIVE on the fork element and the new heads ACTIVE on their match
+    elements — the state `GroupVM.init` / `renderHeads` start from.  Any `n`. -/
+theorem groupvm_is_corevm_partial_fork (fuel : Nat) (s : CoreVM.VM) (f : CoreIndex.FUid) (h : CoreIndex.HUid) (i : CoreIndex.Inst)
+    (x : CoreVM.InstX) (cfg : CoreVM.FlowCfg) (hd : CoreIndex.Head) (fl u : String) (lps : List (String × Nat))
+    (H : CoreVM.HeadAt s f h i x cfg hd) (hact : hd.status = .active) (hlis : i.status.listening = true)
+    (hcatch : cfg.elements[hd.pos]! = .catchFail (some fl)) (hsz : hd.pos + 1 < cfg.elements.size)
+    (hfork : cfg.elements[hd.pos + 1]! = .fork u (lps.map (·.1)))
+    (hl : ∀ lp ∈ lps, cfg.label lp.1 = some lp.2 ∧ lp.2 ≠ 0 ∧ CoreVM.NotMatchAt cfg lp.2)
+    (hnews : ∀ lp ∈ lps, lp.2 + 1 < cfg.elements.size ∧ ∃ spec b n, cfg.elements[lp.2 + 1]! = .matchOp spec b ∧ CoreVM.PlainSpec spec n)
+    (hnd : ((CoreVM.hview i).map (·.1)).Nodup) (hfresh : ∀ m, m > s.r.nextUid → CoreVM.uidOf m ∉ i.headUids) :
+    ∃ s1 s2 i2 x', CoreVM.slide (fuel + 2) f h s = .ok (CoreVM.newKeys f s.r.nextUid lps.length) s1 ∧
+      CoreVM.runMembers (fuel + 1) f ((CoreVM.newKeys f s.r.nextUid lps.length).map (·.2)) s1 = .ok () s2 ∧
+      CoreVM.FlowAt s2 f i2 x' cfg ∧ x'.ctxOwner = x.ctxOwner ∧
+      CoreVM.hview i2 = (CoreVM.hview i).map (CoreVM.setCore h (hd.pos + 1) .inactive) ++
+        (CoreVM.newView s.r.nextUid (lps.map (·.2))).map (fun t => (t.1, t.2.1 + 1, t.2.2)) ∧
+      x'.forkUids = OMap.insert u h x.forkUids ∧ i2.status = i.status ∧ s2.r.nextUid = s.r.nextUid + lps.length ∧
+      s2.r.choices = s.r.choices ∧
+      -- the HeadX records: the forking head lists the new heads as its children, the new heads have none
+      (∀ a0, OMap.lookup (f, h) s.r.hx = some a0 → (∀ m, m > s.r.nextUid → OMap.lookup (f, CoreVM.uidOf m) s.r.hx = none) →
+        ((OMap.lookup (f, h) s2.r.hx).getD {}).childHeadUids = a0.childHeadUids ++ (CoreVM.newKeys f s.r.nextUid lps.length).map (·.2) ∧
+        (∀ k ∈ CoreVM.newKeys f s.r.nextUid lps.length, ((OMap.lookup k s2.r.hx).getD {}).childHeadUids = [] ∧
+          ((OMap.lookup k s2.r.hx).getD {}).scores = a0.scores)) :=
+  CoreVM.fork_segment fuel s f h i x cfg hd fl u lps H hact hlis hcatch hsz hfork hl hnews hnd hfresh
+
+/-- **groupvm_is_corevm_partial (merge segment, the and-clause completes).**  After phase 1 exactly one member head is MERGING, the
+    others are ACTIVE (on their `match` or parked on `WaitForHeads`), the forking head `r` is INACTIVE.  CoreVM's `slide` on the MERGING
+    head: `r` continues ACTIVE on the `MergeHeads` element, every member head is deleted, `[r]` is handed back — `GroupVM.mergeStep
+    (.member 0 j)` of a group without or-level (`done := true`, no head of the group left).  Any clause size. -/
+theorem groupvm_is_corevm_partial_merge (fuel : Nat) (s : CoreVM.VM) (f : CoreIndex.FUid) (i : CoreIndex.Inst) (x : CoreVM.InstX)
+    (cfg : CoreVM.FlowCfg) (l mu : String) (pe n fp : Nat)
+    (r : CoreIndex.HUid) (us : List (CoreIndex.HUid × Nat)) (ms : List (Nat × MLoc)) (j : Nat) (uj : CoreIndex.HUid × Nat) (a : Nat)
+    (F : CoreVM.FlowAt s f i x cfg) (C : CoreVM.ClauseShape cfg l mu pe n)
+    (hv : CoreVM.hview i = (r, fp, CoreIndex.HeadStatus.inactive) :: CoreVM.renderU (pe + 1) us ms)
+    (hlen : us.length = ms.length) (hndu : (r :: us.map (·.1)).Nodup)
+    (hju : us[j]? = some uj) (hjm : ms[j]? = some (a, MLoc.merging))
+    (hone : ∀ j' m', ms[j']? = some m' → j' ≠ j → m'.2 = MLoc.atWait ∨ m'.2 = MLoc.atMatch)
+    (hfu : OMap.lookup mu x.forkUids = some r)
+    (hhx : ((OMap.lookup (f, r) s.r.hx).getD {}).childHeadUids = us.map (·.1))
+    (hleaf : ∀ c ∈ us.map (·.1), ((OMap.lookup (f, c) s.r.hx).getD {}).childHeadUids = [])
+    (hmu : mu ∉ us.map (·.1)) (hfp : fp ≠ pe + 2) :
+    ∃ s' i' x', CoreVM.slide (fuel + 4) f uj.1 s = .ok [(f, r)] s' ∧ CoreVM.FlowAt s' f i' x' cfg ∧ x'.ctxOwner = x.ctxOwner ∧
+      CoreVM.hview i' = [(r, pe + 2, CoreIndex.HeadStatus.active)] ∧ s'.r.nextUid = s.r.nextUid := by
+  obtain ⟨s', i', x', h1, h2, h3, h4, h5, _⟩ :=
+    CoreVM.and_clause_completes fuel s f i x cfg l mu pe n fp r us ms j uj a F C hv hlen hndu hju hjm hone hfu hhx hleaf hmu hfp
+  exact ⟨s', i', x', h1, h2, h3, h4, h5⟩
+
+/-- **groupvm_is_corevm_partial (one event on a pure and-group, any size).**  Composition of the segments: between two events the
+    member heads are on their `match` elements or parked (`QMs ms`), the forking head `r` is INACTIVE.  Advancing the heads that wait
+    on `match e` yields `GroupVM.p1Members e n [] ms`; if that completes the clause (`remMs … = []`), `slide` on the one MERGING head
+    merges and `r` continues behind the group, all member heads gone — `GroupVM.stepEvent` on a group without or-level, carried out
+    by CoreVM's own `slide`.  (What `runToCompletion` adds around it — finding the matching heads through the index, the bookkeeping
+    of `_advance_head_front`, the merging loop calling `slide` on the MERGING head — is not part of this theorem.) -/
+theorem groupvm_is_corevm_partial_and_event (fuel : Nat) (s : CoreVM.VM) (f : CoreIndex.FUid) (i : CoreIndex.Inst) (x : CoreVM.InstX)
+    (cfg : CoreVM.FlowCfg) (l mu : String) (pe fp e : Nat)
+    (r : CoreIndex.HUid) (us : List (CoreIndex.HUid × Nat)) (ms : List (Nat × MLoc))
+    (F : CoreVM.FlowAt s f i x cfg) (hown : x.ctxOwner = none) (C : CoreVM.ClauseShape cfg l mu pe ms.length)
+    (S : CoreVM.MembersShape cfg l pe us)
+    (hlen : us.length = ms.length) (hndu : (r :: us.map (·.1)).Nodup) (hq : QMs ms)
+    (hv : CoreVM.hview i = (r, fp, CoreIndex.HeadStatus.inactive) :: CoreVM.renderU (pe + 1) us ms)
+    (hfu : OMap.lookup mu x.forkUids = some r)
+    (hhx : ((OMap.lookup (f, r) s.r.hx).getD {}).childHeadUids = us.map (·.1))
+    (hleaf : ∀ c ∈ us.map (·.1), ((OMap.lookup (f, c) s.r.hx).getD {}).childHeadUids = [])
+    (hmu : mu ∉ us.map (·.1)) (hfp : fp ≠ pe + 2) :
+    ∃ s1 i1, CoreVM.runMembers (fuel + 3) f (CoreVM.matchingU e us ms) s = .ok () s1 ∧ CoreVM.FlowAt s1 f i1 x cfg ∧ s1.r = s.r ∧
+      CoreVM.hview i1 = (r, fp, CoreIndex.HeadStatus.inactive) :: CoreVM.renderU (pe + 1) us (p1Members e ms.length [] ms) ∧
+      (remMs (p1Members e ms.length [] ms) = [] → remMs ms ≠ [] →
+        ∃ (j : Nat) (uj : CoreIndex.HUid × Nat) (a : Nat), us[j]? = some uj ∧ (p1Members e ms.length [] ms)[j]? = some (a, MLoc.merging) ∧
+          ∃ s2 i2 x2, CoreVM.slide (fuel + 4) f uj.1 s1 = .ok [(f, r)] s2 ∧ CoreVM.FlowAt s2 f i2 x2 cfg ∧ x2.ctxOwner = x.ctxOwner ∧
+            CoreVM.hview i2 = [(r, pe + 2, CoreIndex.HeadStatus.active)]) :=
+  CoreVM.and_group_event fuel s f i x cfg l mu pe fp e r us ms F hown C S hlen hndu hq hv hfu hhx hleaf hmu hfp
+
+/-- **groupvm_is_corevm_partial (one event on a pure or-group of single atoms, any number of branches)**, when one branch matches the
+    event (always the case for distinct atoms): phase 1 (`GroupVM.p1Brs`) then the merge with a single candidate.  Several branches
+    MERGING in the same event (the same atom twice) need `random.choice` in `MergeHeads`; that case stays tied by execution. -/
+theorem groupvm_is_corevm_partial_or_event (fuel : Nat) (s : CoreVM.VM) (f : CoreIndex.FUid) (i : CoreIndex.Inst) (x : CoreVM.InstX)
+    (cfg : CoreVM.FlowCfg) (l mu : String) (pe fp e : Nat)
+    (r : CoreIndex.HUid) (us : List (CoreIndex.HUid × Nat)) (brs : List Br) (j : Nat) (uj : CoreIndex.HUid × Nat)
+    (F : CoreVM.FlowAt s f i x cfg) (hown : x.ctxOwner = none) (C : CoreVM.OrShape cfg l mu pe) (S : CoreVM.MembersShape cfg l pe us)
+    (hlen : us.length = brs.length) (hnm : CoreVM.noMulti brs = true) (hndu : (r :: us.map (·.1)).Nodup)
+    (hv : CoreVM.hview i = (r, fp, CoreIndex.HeadStatus.inactive) :: CoreVM.renderB (pe + 1) us brs)
+    (hju : us[j]? = some uj) (hjm : (p1Brs e 0 brs).1[j]? = some Br.merging)
+    (hone : ∀ j' m', (p1Brs e 0 brs).1[j']? = some m' → j' ≠ j → ∃ a, m' = Br.single a)
+    (hl1 : (p1Brs e 0 brs).1.length = brs.length)
+    (hfu : OMap.lookup mu x.forkUids = some r)
+    (hhx : ((OMap.lookup (f, r) s.r.hx).getD {}).childHeadUids = us.map (·.1))
+    (hleaf : ∀ c ∈ us.map (·.1), ((OMap.lookup (f, c) s.r.hx).getD {}).childHeadUids = [])
+    (hmu : mu ∉ us.map (·.1)) (hfp : fp ≠ pe + 1) :
+    ∃ s1 i1 s2 i2 x2, CoreVM.runMembers (fuel + 2) f (CoreVM.matchingB e us brs) s = .ok () s1 ∧ CoreVM.FlowAt s1 f i1 x cfg ∧
+      CoreVM.hview i1 = (r, fp, CoreIndex.HeadStatus.inactive) :: CoreVM.renderB (pe + 1) us (p1Brs e 0 brs).1 ∧
+      CoreVM.slide (fuel + 4) f uj.1 s1 = .ok [(f, r)] s2 ∧ CoreVM.FlowAt s2 f i2 x2 cfg ∧ x2.ctxOwner = x.ctxOwner ∧
+      CoreVM.hview i2 = [(r, pe + 1, CoreIndex.HeadStatus.active)] :=
+  CoreVM.or_group_event fuel s f i x cfg l mu pe fp e r us brs j uj F hown C S hlen hnm hndu hv hju hjm hone hl1 hfu hhx hleaf hmu hfp
+
+/-- **groupvm_is_corevm_partial (`MergeHeads` with `random.choice`, the winner).**  A MERGING head `h` on `MergeHeads u`; the children
+    `cs` of the forking head `r` are heads of the flow (none has forked itself), the MERGING ones among them are `MH` (in
+    `get_child_head_uids` order) and have equal scores.  Either `h` is the only candidate (`random.choice` is not called) or the
+    recorded outcome `c` of `random.choice` over `MH` selects `h`.  Then one step of CoreVM's `slide` lets the forking head continue
+    ACTIVE at `h`'s position, deletes EVERY child head — ACTIVE, MERGING or an INACTIVE loser of an earlier pick (the guard of each
+    deletion, "not in the reverse map", follows from the by-construction invariant `IndexOK`) — and hands `[r]` back.  This is the
+    winner branch of `GroupVM.mergeStep` (`pick`), for every number of children and candidates. -/
+theorem groupvm_is_corevm_partial_merge_choice (fuel : Nat) (s : CoreVM.VM) (f : CoreIndex.FUid) (h : CoreIndex.HUid) (i : CoreIndex.Inst)
+    (x : CoreVM.InstX) (cfg : CoreVM.FlowCfg) (hd rd : CoreIndex.Head) (u : String) (r : CoreIndex.HUid) (cs : List CoreIndex.HUid)
+    (H : CoreVM.HeadAt s f h i x cfg hd) (hel : cfg.elements[hd.pos]! = .merge u) (hm : hd.status = .merging)
+    (hfu : OMap.lookup u x.forkUids = some r) (hroot : i.findHead r = some rd)
+    (hcs : ((OMap.lookup (f, r) s.r.hx).getD {}).childHeadUids = cs)
+    (hleaf : ∀ c ∈ cs, ((OMap.lookup (f, c) s.r.hx).getD {}).childHeadUids = [])
+    (hex : ∀ c ∈ cs, ∃ cd, i.findHead c = some cd)
+    (MH : List CoreIndex.HUid) (hMH : cs.filter (fun c => (i.findHead c).map (·.status) == some CoreIndex.HeadStatus.merging) = MH)
+    (hpick : MH = [h] ∨ ∃ c rest sc0, s.r.choices = c :: rest ∧ c < MH.length ∧ MH[c]? = some h ∧ 1 < MH.length ∧
+      ∀ k ∈ MH, ((OMap.lookup (f, k) s.r.hx).getD {}).scores = sc0)
+    (hnd : cs.Nodup) (hmem : h ∈ cs)
+    (hrh : r ≠ h) (hrpos : rd.pos ≠ hd.pos) (hrst : rd.status = .inactive) (hrcs : r ∉ cs) (hucs : u ∉ cs)
+    (hns : i.status ≠ .stopping) :
+    ∃ s' i' x', CoreVM.slideStep (fuel + 2) f h s = .ok (false, [(f, r)]) s' ∧ CoreVM.FlowAt s' f i' x' cfg ∧
+      x'.ctxOwner = x.ctxOwner ∧
+      CoreVM.hview i' = ((CoreVM.hview i).map (CoreVM.setCore r hd.pos .active)).filter (fun t => !cs.contains t.1) ∧
+      s'.r.nextUid = s.r.nextUid :=
+  CoreVM.slideStep_merge_pick fuel s f h i x cfg hd rd u r cs H hel hm hfu hroot hcs hleaf hex MH hMH hpick hnd hmem hrh hrpos hrst
+    hrcs hucs hns
+
+/-- **… the loser.**  `random.choice` selects another candidate `h' ≠ h`: `h` becomes INACTIVE (ONE index operation), one recorded
+    choice is consumed, nothing else changes — the loser branch of `GroupVM.mergeStep`. -/
+theorem groupvm_is_corevm_partial_merge_lose (fuel : Nat) (s : CoreVM.VM) (f : CoreIndex.FUid) (h : CoreIndex.HUid) (i : CoreIndex.Inst)
+    (x : CoreVM.InstX) (cfg : CoreVM.FlowCfg) (hd rd : CoreIndex.Head) (u : String) (r : CoreIndex.HUid) (cs : List CoreIndex.HUid)
+    (H : CoreVM.HeadAt s f h i x cfg hd) (hel : cfg.elements[hd.pos]! = .merge u) (hm : hd.status = .merging)
+    (hfu : OMap.lookup u x.forkUids = some r) (hroot : i.findHead r = some rd)
+    (hcs : ((OMap.lookup (f, r) s.r.hx).getD {}).childHeadUids = cs)
+    (hleaf : ∀ c ∈ cs, ((OMap.lookup (f, c) s.r.hx).getD {}).childHeadUids = [])
+    (hex : ∀ c ∈ cs, ∃ cd, i.findHead c = some cd)
+    (MH : List CoreIndex.HUid) (hMH : cs.filter (fun c => (i.findHead c).map (·.status) == some CoreIndex.HeadStatus.merging) = MH)
+    (c : Nat) (rest : List Nat) (sc0 : List CoreVM.Score) (h' : CoreIndex.HUid)
+    (hch : s.r.choices = c :: rest) (hclt : c < MH.length) (hcget : MH[c]? = some h') (hne : h' ≠ h) (hlen1 : 1 < MH.length)
+    (hsc : ∀ k ∈ MH, ((OMap.lookup (f, k) s.r.hx).getD {}).scores = sc0)
+    (hnd : cs.Nodup) (hmem : h ∈ cs)
+    (hrh : r ≠ h) (hrpos : rd.pos ≠ hd.pos) (hrst : rd.status = .inactive) (hrcs : r ∉ cs) (hucs : u ∉ cs)
+    (hns : i.status ≠ .stopping) :
+    ∃ s' hg, CoreVM.slideStep (fuel + 2) f h s = .ok (false, []) s' ∧
+      s'.ixs = s.ixs.apply (.setStatus f h .inactive none) hg ∧ s'.r.choices = rest ∧ s'.r.hx = s.r.hx ∧ s'.r.fx = s.r.fx ∧
+      s'.r.prog = s.r.prog ∧ s'.r.nextUid = s.r.nextUid :=
+  CoreVM.slideStep_merge_lose fuel s f h i x cfg hd rd u r cs H hel hm hfu hroot hcs hleaf hex MH hMH c rest sc0 h' hch hclt hcget
+    hne hlen1 hsc hnd hmem hrh hrpos hrst hrcs hucs hns
+
+/-- **groupvm_is_corevm_partial (one event on a pure or-group of single atoms, EVERY tie-break).**  Phase 1 (`GroupVM.p1Brs`) and then the
+    merging loop over all branch heads that became MERGING (several when an atom occurs more than once), advanced in order with CoreVM's
+    `slide`: a head that `random.choice` does not pick becomes INACTIVE, the first picked one — at the latest the last remaining one —
+    merges.  For EVERY list of recorded outcomes that is present and in range (`Adequate`) the forking head continues behind the group
+    and no branch head is left: `GroupVM.stepEvent` / `merging_always_completes` on or-groups, by the interpreter model's own `slide`. -/
+theorem groupvm_is_corevm_partial_or_event_all (fuel : Nat) (s : CoreVM.VM) (f : CoreIndex.FUid) (i : CoreIndex.Inst) (x : CoreVM.InstX)
+    (cfg : CoreVM.FlowCfg) (l mu : String) (pe fp e : Nat)
+    (r : CoreIndex.HUid) (us : List (CoreIndex.HUid × Nat)) (brs : List Br) (sc0 : List CoreVM.Score) (n : Nat)
+    (I : CoreVM.OrMergeInv s f i x cfg l mu pe fp r us brs sc0) (hown : x.ctxOwner = none) (S : CoreVM.MembersShape cfg l pe us)
+    (hnm : CoreVM.noMulti brs = true) (hl1 : (p1Brs e 0 brs).1.length = brs.length)
+    (hMH : (CoreVM.mergingUids us (p1Brs e 0 brs).1).length = n + 1) (hadq : CoreVM.Adequate (n + 1) s.r.choices) :
+    ∃ s1 i1 s2 i2 x2, CoreVM.runMembers (fuel + 2) f (CoreVM.matchingB e us brs) s = .ok () s1 ∧ CoreVM.FlowAt s1 f i1 x cfg ∧
+      CoreVM.hview i1 = (r, fp, CoreIndex.HeadStatus.inactive) :: CoreVM.renderB (pe + 1) us (p1Brs e 0 brs).1 ∧
+      CoreVM.slideUntil (fuel + 4) f (CoreVM.mergingUids us (p1Brs e 0 brs).1) s1 = .ok [(f, r)] s2 ∧ CoreVM.FlowAt s2 f i2 x2 cfg ∧
+      x2.ctxOwner = x.ctxOwner ∧ CoreVM.hview i2 = [(r, pe + 1, CoreIndex.HeadStatus.active)] :=
+  CoreVM.or_group_event_all fuel s f i x cfg l mu pe fp e r us brs sc0 n I hown S hnm hl1 hMH hadq
+
+/-- **groupvm_is_corevm_partial (pure and-group of any size, EVERY event sequence).**  The events are processed at the level of CoreVM's
+    `slide` (`CoreVM.andDriver`: per event the member heads that wait on it are advanced, a head that became MERGING is advanced again;
+    which heads wait on the event is read off the `GroupVM` member states — in the interpreter the index selects them, C09).  The forking
+    head is handed back while processing `es[k]` iff `k` is the least index such that every atom of the clause that was still awaited
+    (`remMs ms`) occurs in `es[0..k]` — the property statement for and-groups — and never again. -/
+theorem groupvm_is_corevm_partial_and_run (fuel : Nat) (f : CoreIndex.FUid) (x : CoreVM.InstX) (cfg : CoreVM.FlowCfg) (l mu : String)
+    (pe fp : Nat) (r : CoreIndex.HUid) (us : List (CoreIndex.HUid × Nat)) (n : Nat)
+    (hown : x.ctxOwner = none) (C : CoreVM.ClauseShape cfg l mu pe n) (S : CoreVM.MembersShape cfg l pe us)
+    (hndu : (r :: us.map (·.1)).Nodup) (hfu : OMap.lookup mu x.forkUids = some r) (hmu : mu ∉ us.map (·.1)) (hfp : fp ≠ pe + 2)
+    (es : List Nat) (s : CoreVM.VM) (i : CoreIndex.Inst) (ms : List (Nat × MLoc))
+    (F : CoreVM.FlowAt s f i x cfg) (hmn : ms.length = n) (hun : us.length = n) (hq : QMs ms) (hrem : remMs ms ≠ [])
+    (hv : CoreVM.hview i = (r, fp, CoreIndex.HeadStatus.inactive) :: CoreVM.renderU (pe + 1) us ms)
+    (hhx : ((OMap.lookup (f, r) s.r.hx).getD {}).childHeadUids = us.map (·.1))
+    (hleaf : ∀ c ∈ us.map (·.1), ((OMap.lookup (f, c) s.r.hx).getD {}).childHeadUids = []) :
+    ∃ s' bs, CoreVM.andDriver fuel f us n ms false es s = .ok bs s' ∧
+      ∀ k, bs[k]? = some true ↔
+        (k < es.length ∧ sat [remMs ms] (es.take (k + 1)) = true ∧ ∀ j, j < k → sat [remMs ms] (es.take (j + 1)) = false) := by
+  obtain ⟨s', hs'⟩ := CoreVM.and_group_run fuel f x cfg l mu pe fp r us n hown C S hndu hfu hmu hfp es s i ms F hmn hun hq hrem hv hhx hleaf
+  refine ⟨s', _, hs', fun k => ?_⟩
+  have := run_spec [remMs ms] es [] k
+  simpa [remaining_nil] using this
+
+/-- **groupvm_is_corevm_partial (a pure and-group from its first element to completion, every event sequence).**  The root head is the
+    only head of the instance, ACTIVE on `CatchPatternFailure; ForkHead mu [l_1 … l_n]`, and the program has the and-template behind it
+    (labels followed by `match <plain event>; goto l`, at the end label `WaitForHeads n; MergeHeads mu`).  CoreVM's `slide` forks the
+    member heads, they are advanced onto their match elements, and for EVERY event sequence `es` the slide-level driver hands the root
+    head back exactly as `markers (andOf c) es` says — the very object of `group_completes_at_first_sat`: at the first event after
+    which every atom of the group has been received, and never again. -/
+theorem groupvm_is_corevm_partial_and_group (fuel : Nat) (s : CoreVM.VM) (f : CoreIndex.FUid) (h : CoreIndex.HUid) (i : CoreIndex.Inst)
+    (x : CoreVM.InstX) (cfg : CoreVM.FlowCfg) (hd : CoreIndex.Head)
+    (fl mu l : String) (lps : List (String × Nat)) (c : List Nat) (pe : Nat) (a0 : CoreVM.HeadX)
+    (H : CoreVM.HeadAt s f h i x cfg hd) (hact : hd.status = .active) (hlis : i.status.listening = true)
+    (hcatch : cfg.elements[hd.pos]! = .catchFail (some fl)) (hsz : hd.pos + 1 < cfg.elements.size)
+    (hfork : cfg.elements[hd.pos + 1]! = .fork mu (lps.map (·.1)))
+    (hl : ∀ lp ∈ lps, cfg.label lp.1 = some lp.2 ∧ lp.2 ≠ 0 ∧ CoreVM.NotMatchAt cfg lp.2)
+    (hnews : ∀ lp ∈ lps, lp.2 + 1 < cfg.elements.size ∧ ∃ spec b n, cfg.elements[lp.2 + 1]! = .matchOp spec b ∧ CoreVM.PlainSpec spec n)
+    (hroot : CoreVM.hview i = [(h, hd.pos, CoreIndex.HeadStatus.active)])
+    (hfresh : ∀ m, m > s.r.nextUid → CoreVM.uidOf m ∉ i.headUids) (hown : x.ctxOwner = none)
+    (ha0 : OMap.lookup (f, h) s.r.hx = some a0) (ha0c : a0.childHeadUids = [])
+    (hfx0 : ∀ m, m > s.r.nextUid → OMap.lookup (f, CoreVM.uidOf m) s.r.hx = none)
+    (hmu : ∀ m, CoreVM.uidOf m ≠ mu)
+    (C : CoreVM.ClauseShape cfg l mu pe lps.length)
+    (S : ∀ lp ∈ lps, cfg.elements[lp.2 + 1 + 1]! = .goto (.lit (.bool true)) l ∧ lp.2 + 1 + 1 < pe + 1)
+    (hfp : hd.pos + 1 ≠ pe + 2) (hc : c.length = lps.length) (hcne : c ≠ []) (es : List Nat) :
+    ∃ s1 s2 s3, CoreVM.slide (fuel + 2) f h s = .ok (CoreVM.newKeys f s.r.nextUid lps.length) s1 ∧
+      CoreVM.runMembers (fuel + 1) f ((CoreVM.newKeys f s.r.nextUid lps.length).map (·.2)) s1 = .ok () s2 ∧
+      CoreVM.andDriver fuel f ((CoreVM.newsOf s.r.nextUid (lps.map (·.2))).map fun q => (q.1, q.2 + 1)) lps.length
+        (CoreVM.allAtMatch c) false es s2 = .ok (markers (andOf c) es) s3 := by
+  obtain ⟨s1, s2, s3, h1, h2, h3⟩ := CoreVM.and_group_from_start fuel s f h i x cfg hd fl mu l lps c pe a0 H hact hlis hcatch hsz hfork hl
+    hnews hroot hfresh hown ha0 ha0c hfx0 hmu C S hfp hc hcne es
+  refine ⟨s1, s2, s3, h1, h2, ?_⟩
+  rw [h3]
+  simp only [markers, normalize_clause_fixed, toDnf_ofDnf, Dnf.init]
+
+theorem dnfOr_atoms (c : List Nat) : dnfOr (c.map G.atom) = c.map fun a => [a] := by
+  induction c with
+  | nil => rfl
+  | cons a c ih => simp [dnfOr, dnf, ih]
+
+/-- **groupvm_is_corevm_partial (a pure or-group of single atoms of any size, every event sequence, EVERY tie-break).**  Between events
+    all branch heads wait on their `match` elements (`OrMergeInv` with `allSingle c`).  The slide-level driver (`CoreVM.orDriver`: advance
+    the branch heads that wait on the event, then the merging loop over those that became MERGING) outputs exactly
+    `markers (.or (c.map .atom)) es` — the first event that matches some atom completes the group, whatever `random.choice` returns
+    when several branches wait for the same event (the recorded outcomes only have to be present and in range). -/
+theorem groupvm_is_corevm_partial_or_run (fuel : Nat) (f : CoreIndex.FUid) (x : CoreVM.InstX) (cfg : CoreVM.FlowCfg) (l mu : String)
+    (pe fp : Nat) (r : CoreIndex.HUid) (us : List (CoreIndex.HUid × Nat)) (c : List Nat) (sc0 : List CoreVM.Score)
+    (hown : x.ctxOwner = none) (S : CoreVM.MembersShape cfg l pe us) (hlen : us.length = c.length)
+    (es : List Nat) (s : CoreVM.VM) (i : CoreIndex.Inst)
+    (I : CoreVM.OrMergeInv s f i x cfg l mu pe fp r us (CoreVM.allSingle c) sc0)
+    (hadq : ∀ n, n ≤ us.length → CoreVM.Adequate n s.r.choices) :
+    ∃ s', CoreVM.orDriver fuel f us (CoreVM.allSingle c) false es s = .ok (markers (.or (c.map .atom)) es) s' := by
+  obtain ⟨s', hs'⟩ := CoreVM.or_group_run fuel f x cfg l mu pe fp r us c sc0 hown S hlen es s i I hadq
+  refine ⟨s', ?_⟩
+  rw [hs']
+  simp only [markers, normalize_eq, toDnf_ofDnf, dnf, dnfOr_atoms, Dnf.init]
+
+/-- **groupvm_is_corevm_partial (exit segment).**  The forking head, handed back ACTIVE on the group's last `MergeHeads`, is advanced
+    (`head.position += 1; slide`) over `CatchPatternFailure(None)` onto the element after the group statement — the marker `send`
+    (a plain, non-internal event), where `slide` stops: the element after the group is reached.  Only this head's position changes. -/
+theorem groupvm_is_corevm_partial_exit (fuel : Nat) (s : CoreVM.VM) (f : CoreIndex.FUid) (h : CoreIndex.HUid) (i : CoreIndex.Inst)
+    (x : CoreVM.InstX) (cfg : CoreVM.FlowCfg) (hd : CoreIndex.Head) (spec : CoreVM.Spec) (n : String)
+    (H : CoreVM.HeadAt s f h i x cfg hd) (hsz : hd.pos + 2 < cfg.elements.size)
+    (hc1 : cfg.elements[hd.pos + 1]! = .catchFail none) (hc2 : cfg.elements[hd.pos + 2]! = .sendOp spec)
+    (hp : CoreVM.PlainSpec spec n) (hargs : spec.args = []) (hint : CoreVM.internalEvents.contains n = false)
+    (hcl : ((OMap.lookup (f, h) s.r.hx).getD {}).catchLabels.isEmpty = false) :
+    ∃ s' i', CoreVM.advanceMember (fuel + 2) f h s = .ok [] s' ∧ CoreVM.FlowAt s' f i' x cfg ∧
+      CoreVM.hview i' = (CoreVM.hview i).map (CoreVM.setPosCore h (hd.pos + 2)) := by
+  obtain ⟨s', i', h1, h2, h3, _⟩ := CoreVM.group_exit fuel s f h i x cfg hd spec n H hsz hc1 hc2 hp hargs hint hcl
+  exact ⟨s', i', h1, h2, h3⟩
+
+/-- **groupvm_is_corevm_partial (a pure or-group of single atoms from its first element to completion, every event sequence, EVERY
+    tie-break).**  The root head is the only head of the instance, ACTIVE on `CatchPatternFailure; ForkHead mu [l_1 … l_n]`, and the
+    program has the or-template with single-atom clauses behind it.  CoreVM's `slide` forks the branch heads, they are advanced onto
+    their match elements, and for EVERY event sequence and EVERY adequate list of `random.choice` outcomes the slide-level driver
+    outputs exactly `markers (.or (c.map .atom)) es`. -/
+theorem groupvm_is_corevm_partial_or_group (fuel : Nat) (s : CoreVM.VM) (f : CoreIndex.FUid) (h : CoreIndex.HUid) (i : CoreIndex.Inst)
+    (x : CoreVM.InstX) (cfg : CoreVM.FlowCfg) (hd : CoreIndex.Head)
+    (fl mu l : String) (lps : List (String × Nat)) (c : List Nat) (pe : Nat) (a0 : CoreVM.HeadX)
+    (H : CoreVM.HeadAt s f h i x cfg hd) (hact : hd.status = .active) (hlis : i.status.listening = true)
+    (hcatch : cfg.elements[hd.pos]! = .catchFail (some fl)) (hsz : hd.pos + 1 < cfg.elements.size)
+    (hfork : cfg.elements[hd.pos + 1]! = .fork mu (lps.map (·.1)))
+    (hl : ∀ lp ∈ lps, cfg.label lp.1 = some lp.2 ∧ lp.2 ≠ 0 ∧ CoreVM.NotMatchAt cfg lp.2)
+    (hnews : ∀ lp ∈ lps, lp.2 + 1 < cfg.elements.size ∧ ∃ spec b n, cfg.elements[lp.2 + 1]! = .matchOp spec b ∧ CoreVM.PlainSpec spec n)
+    (hroot : CoreVM.hview i = [(h, hd.pos, CoreIndex.HeadStatus.active)])
+    (hfresh : ∀ m, m > s.r.nextUid → CoreVM.uidOf m ∉ i.headUids) (hown : x.ctxOwner = none)
+    (ha0 : OMap.lookup (f, h) s.r.hx = some a0) (ha0c : a0.childHeadUids = [])
+    (hfx0 : ∀ m, m > s.r.nextUid → OMap.lookup (f, CoreVM.uidOf m) s.r.hx = none)
+    (hmu : ∀ m, CoreVM.uidOf m ≠ mu)
+    (C : CoreVM.OrShape cfg l mu pe)
+    (S : ∀ lp ∈ lps, cfg.elements[lp.2 + 1 + 1]! = .goto (.lit (.bool true)) l ∧ lp.2 + 1 + 1 < pe + 1)
+    (hfp : hd.pos + 1 ≠ pe + 1) (hc : c.length = lps.length)
+    (hadq : ∀ n, n ≤ lps.length → CoreVM.Adequate n s.r.choices) (es : List Nat) :
+    ∃ s1 s2 s3, CoreVM.slide (fuel + 2) f h s = .ok (CoreVM.newKeys f s.r.nextUid lps.length) s1 ∧
+      CoreVM.runMembers (fuel + 1) f ((CoreVM.newKeys f s.r.nextUid lps.length).map (·.2)) s1 = .ok () s2 ∧
+      CoreVM.orDriver fuel f ((CoreVM.newsOf s.r.nextUid (lps.map (·.2))).map fun q => (q.1, q.2 + 1)) (CoreVM.allSingle c) false es s2
+        = .ok (markers (.or (c.map .atom)) es) s3 := by
+  obtain ⟨s1, s2, s3, h1, h2, h3⟩ := CoreVM.or_group_from_start fuel s f h i x cfg hd fl mu l lps c pe a0 H hact hlis hcatch hsz hfork hl
+    hnews hroot hfresh hown ha0 ha0c hfx0 hmu C S hfp hc hadq es
+  refine ⟨s1, s2, s3, h1, h2, ?_⟩
+  rw [h3]
+  simp only [markers, normalize_eq, toDnf_ofDnf, dnf, dnfOr_atoms, Dnf.init]
+
+/-- **groupvm_is_corevm_partial (pure and-group as the mirrored generator emits it).**  The flow configuration contains
+    `expandAnd c k` (|c| ≥ 2: the and-template that `readBack_expandMatch` / the element-by-element tie relate to the REAL expanded list) at
+    offset `B`, translated element by element, atoms being plain events, with its labels resolved to their label elements; the root head
+    is the only head of the instance, ACTIVE on the template's first element.  For EVERY event sequence `es` CoreVM's `slide`, driven per
+    event, hands the root head back exactly as `markers (andOf c) es` says.  All program-shape hypotheses are discharged from the
+    mirror; what remains are facts about the run-time state at the moment the group statement is reached. -/
+theorem groupvm_is_corevm_partial_and_group_mirror (fuel : Nat) (s : CoreVM.VM) (f : CoreIndex.FUid) (h : CoreIndex.HUid)
+    (i : CoreIndex.Inst) (x : CoreVM.InstX) (cfg : CoreVM.FlowCfg) (hd : CoreIndex.Head)
+    (spec : Nat → CoreVM.Spec) (B k : Nat) (c : List Nat) (a0 : CoreVM.HeadX) (h2 : 2 ≤ c.length)
+    (H : CoreVM.HeadAt s f h i x cfg hd) (hB : hd.pos = B) (hact : hd.status = .active) (hlis : i.status.listening = true)
+    (hc : CoreVM.ContainsAt cfg spec B (expandAnd c k).1)
+    (hlab : ∀ j, j < c.length → cfg.label (CoreVM.nmOf (k + 3 + j)) = some (B + 2 + 3 * j))
+    (hlabE : cfg.label (CoreVM.nmOf (k + 2)) = some (B + 2 + 3 * c.length + 4))
+    (hspec : ∀ a, ∃ n, CoreVM.PlainSpec (spec a) n)
+    (hroot : CoreVM.hview i = [(h, hd.pos, CoreIndex.HeadStatus.active)])
+    (hfresh : ∀ m, m > s.r.nextUid → CoreVM.uidOf m ∉ i.headUids) (hown : x.ctxOwner = none)
+    (ha0 : OMap.lookup (f, h) s.r.hx = some a0) (ha0c : a0.childHeadUids = [])
+    (hfx0 : ∀ m, m > s.r.nextUid → OMap.lookup (f, CoreVM.uidOf m) s.r.hx = none) (es : List Nat) :
+    ∃ s1 s2 s3, CoreVM.slide (fuel + 2) f h s = .ok (CoreVM.newKeys f s.r.nextUid c.length) s1 ∧
+      CoreVM.runMembers (fuel + 1) f ((CoreVM.newKeys f s.r.nextUid c.length).map (·.2)) s1 = .ok () s2 ∧
+      CoreVM.andDriver fuel f ((CoreVM.newsOf s.r.nextUid ((CoreVM.mirrorLps B k c.length).map (·.2))).map fun q => (q.1, q.2 + 1))
+        c.length (CoreVM.allAtMatch c) false es s2 = .ok (markers (andOf c) es) s3 := by
+  obtain ⟨s1, s2, s3, h1, h2', h3⟩ := CoreVM.and_group_of_mirror fuel s f h i x cfg hd spec B k c a0 h2 H hB hact hlis hc hlab hlabE hspec
+    hroot hfresh hown ha0 ha0c hfx0 es
+  refine ⟨s1, s2, s3, h1, h2', ?_⟩
+  rw [h3]
+  simp only [markers, normalize_clause_fixed, toDnf_ofDnf, Dnf.init]
+
 /-! ## the expanded element list -/
 
 /-- The checker that is run on the REAL element list of every generated `match <group>` accepts the
@@ -215,6 +614,173 @@ theorem readBackAwait_expandAwait (g : G) : readBackAwait (expandAwait g) = some
 theorem readBackAwait_expandAwaitClauses (d : Clauses) (k : Nat) : readBackAwait (expandAwaitClauses d k).1 = some d := by
   simp only [readBackAwait, readAwaitGroup_expand]
 
+/-! ## `when` on groups (structure) -/
+
+/-- **readBack_expandWhen.**  The checker that is run on the REAL element list of every generated `when` statement
+    (several cases, optional else, events and flows mixed) accepts what the mirror of `_expand_when_stmt_element`
+    (all passes of `expand_elements`) emits and reads back, for each case, exactly the clauses of the normalised group
+    of that case: one forked head per case, below it one forked head per and-clause, the clause starts its own instance of
+    each of its flows and waits for exactly those references (and for its events), `WaitForHeads` numbers = number of
+    atoms (and-template) / clauses (failure path of the case) / cases (else group), all exits close the scope. -/
+theorem readBack_expandWhen (isFlow : Nat → Bool) (cases : List (G × List Prim)) (els : Option (List Prim)) :
+    readBackWhen (cases.map (·.2)) els (expandWhen isFlow cases els) = some (cases.map fun c => toDnf (normalize c.1)) := by
+  have h := readBackWhen_expandWhenClauses isFlow (cases.map fun c => (toDnf (normalize c.1), c.2)) els 0
+  simp only [List.map_map, Function.comp_def] at h
+  exact h
+
+/-! ## `await` / `when` on groups of flows at run time (T3, Models/GroupFlowVM.lean)
+
+  `GroupFlow.outs g es` = per event about the child flows (`fin a`: the running instances of flow `a` finish, `fail a`: they
+  fail) what the statement does: nothing / marker / failure path.  `know es k` = which flows have finished resp. failed after
+  `es[0..k]` (the first event about a flow decides).  The machine is compared with the real interpreter on every run (ops
+  await / awaitf / when / whenf / whenfe: marker, failure path and the set of running child flows after every event). -/
+
+open NemoVerif.GroupFlow in
+theorem flow_run_spec (g : G) (es : List FEv) (k : Nat) (o : Out) (ho : o ≠ .quiet) :
+    (outs g es)[k]? = some o ↔
+      (k < es.length ∧ verdict (toDnf (normalize g)) (know es k) = o ∧
+        ∀ j, j < k → verdict (toDnf (normalize g)) (know es j) = .quiet) := by
+  simp only [outs, init_abs, run_eq_specRun]
+  exact specRun_spec _ o ho es {} k
+
+open NemoVerif.GroupFlow in
+theorem know_disj (es : List FEv) (k : Nat) : (know es k).Disj :=
+  knowFrom_disj _ _ (fun _ h => by cases h)
+
+/-- **await_group_same_formula.**  `await g` over flows (one group of arbitrary nesting): the element after the statement is
+    reached while processing `es[k]` iff `k` is the least index at which the set of flows that have FINISHED satisfies the
+    formula — the same formula as for `match`, over the flows' Finished events.  A flow that failed never counts. -/
+theorem await_group_same_formula (g : G) (es : List GroupFlow.FEv) (k : Nat) :
+    (GroupFlow.outs g es)[k]? = some .marker ↔
+      (k < es.length ∧ eval (GroupFlow.know es k).finished g = true ∧
+        ∀ j, j < k → eval (GroupFlow.know es j).finished g = false) := by
+  open NemoVerif.GroupFlow in
+  rw [flow_run_spec g es k .marker (by decide)]
+  have hsat : ∀ i, satK (toDnf (normalize g)) (know es i) = eval (know es i).finished g := by
+    intro i; rw [satK_eq _ _ (know_disj es i)]; exact normalize_sound g _
+  constructor
+  · rintro ⟨hk, hv, hall⟩
+    refine ⟨hk, ?_, ?_⟩
+    · rw [← hsat]
+      simp only [verdict] at hv
+      split at hv
+      · assumption
+      · split at hv <;> cases hv
+    · intro j hj
+      rw [← hsat]
+      have := hall j hj
+      simp only [verdict] at this
+      split at this
+      · cases this
+      · rename_i h; simpa using h
+  · rintro ⟨hk, hs, hall⟩
+    refine ⟨hk, ?_, ?_⟩
+    · simp only [verdict, hsat, hs, if_true]
+    · intro j hj
+      have hsj : satK (toDnf (normalize g)) (know es j) = false := by rw [hsat]; exact hall j hj
+      have hsk : satK (toDnf (normalize g)) (know es k) = true := by rw [hsat]; exact hs
+      have huj : unsatK (toDnf (normalize g)) (know es j) = false := by
+        cases hu : unsatK (toDnf (normalize g)) (know es j) with
+        | false => rfl
+        | true =>
+          have := unsatK_mono _ _ (know es k) (know_mono {} es j k (Nat.le_of_lt hj)).2 hu
+          rw [sat_not_unsat _ _ hsk] at this; cases this
+      simp only [verdict, hsj, huj, Bool.false_eq_true, if_false]
+
+/-- **Failure path.**  The statement takes its failure path (`Abort` for `await` and for `when` without `else`, the else
+    branch otherwise) while processing `es[k]` iff `k` is the least index at which the formula can no longer be satisfied:
+    it is false even if every flow that has not FAILED finished.  (A child that fails makes its atom permanently false; the
+    group fails exactly when the formula becomes unsatisfiable — checked on the real code by the ops awaitf / whenf / whenfe.) -/
+theorem group_fails_iff_unsatisfiable (g : G) (es : List GroupFlow.FEv) (k : Nat) :
+    (GroupFlow.outs g es)[k]? = some .failed ↔
+      (k < es.length ∧ eval (GroupFlow.know es k).possible g = false ∧
+        ∀ j, j < k → eval (GroupFlow.know es j).possible g = true) := by
+  open NemoVerif.GroupFlow in
+  rw [flow_run_spec g es k .failed (by decide)]
+  have hun : ∀ i, unsatK (toDnf (normalize g)) (know es i) = !eval (know es i).possible g := by
+    intro i; rw [unsatK_eq]; congr 1; exact normalize_sound g _
+  constructor
+  · rintro ⟨hk, hv, hall⟩
+    refine ⟨hk, ?_, ?_⟩
+    · simp only [verdict] at hv
+      split at hv
+      · cases hv
+      · split at hv
+        · rename_i h; rw [hun] at h; simpa using h
+        · cases hv
+    · intro j hj
+      have := hall j hj
+      simp only [verdict] at this
+      split at this
+      · cases this
+      · split at this
+        · cases this
+        · rename_i h; rw [hun] at h; simpa using h
+  · rintro ⟨hk, hs, hall⟩
+    have huk : unsatK (toDnf (normalize g)) (know es k) = true := by rw [hun, hs]; rfl
+    have hsk : satK (toDnf (normalize g)) (know es k) = false := by
+      cases h : satK (toDnf (normalize g)) (know es k) with
+      | false => rfl
+      | true => rw [sat_not_unsat _ _ h] at huk; cases huk
+    refine ⟨hk, ?_, ?_⟩
+    · simp only [verdict, hsk, huk, Bool.false_eq_true, if_false, if_true]
+    · intro j hj
+      have huj : unsatK (toDnf (normalize g)) (know es j) = false := by rw [hun, hall j hj]; rfl
+      have hsj : satK (toDnf (normalize g)) (know es j) = false := by
+        cases h : satK (toDnf (normalize g)) (know es j) with
+        | false => rfl
+        | true =>
+          have := satK_mono _ _ (know es k) (know_disj es k) (know_mono {} es j k (Nat.le_of_lt hj)).1 h
+          rw [hsk] at this; cases this
+      simp only [verdict, hsj, huj, Bool.false_eq_true, if_false]
+
+/-- **when_group_same_formula.**  A `when g` case over flows is expanded to the same per-clause code as `await g`
+    (`readBack_expandWhen`, `readBackAwait_expandAwait`: per clause its own flow instances and the and-template over
+    `$ref.Finished()`); its run-time behaviour is the same machine: the case body is reached exactly at the least index at
+    which the finished flows satisfy the formula, the else branch (or `Abort`) exactly when the formula becomes unsatisfiable. -/
+theorem when_group_same_formula (g : G) (es : List GroupFlow.FEv) (k : Nat) :
+    ((GroupFlow.outs g es)[k]? = some .marker ↔
+      (k < es.length ∧ eval (GroupFlow.know es k).finished g = true ∧
+        ∀ j, j < k → eval (GroupFlow.know es j).finished g = false)) ∧
+    ((GroupFlow.outs g es)[k]? = some .failed ↔
+      (k < es.length ∧ eval (GroupFlow.know es k).possible g = false ∧
+        ∀ j, j < k → eval (GroupFlow.know es j).possible g = true)) :=
+  ⟨await_group_same_formula g es k, group_fails_iff_unsatisfiable g es k⟩
+
+/-- with no failures the flow-level machine is the clause machine of `match`: "flow `a` finished" plays the role of event `a` -/
+theorem flow_marker_eq_match_marker (g : G) (es : List Nat) (k : Nat) :
+    (GroupFlow.outs g (es.map GroupFlow.FEv.fin))[k]? = some .marker ↔ (markers g es)[k]? = some true := by
+  rw [await_group_same_formula, group_completes_at_first_sat]
+  have hfin : ∀ j, (GroupFlow.know (es.map GroupFlow.FEv.fin) j).finished = seen es j := by
+    intro j
+    funext a
+    simp only [GroupFlow.know, GroupFlow.Know.finished, seen, ← List.map_take]
+    rw [(GroupFlow.knowFrom_fin (es.take (j + 1)) {} rfl).2 a]
+    simp
+  simp only [hfin, List.length_map]
+/-- Marker and failure exclude each other and each happens at most once: at most one index of a run is not quiet. -/
+theorem flow_outcome_at_most_once (g : G) (es : List GroupFlow.FEv) (i j : Nat) (oi oj : GroupFlow.Out)
+    (hoi : oi ≠ .quiet) (hoj : oj ≠ .quiet)
+    (hi : (GroupFlow.outs g es)[i]? = some oi) (hj : (GroupFlow.outs g es)[j]? = some oj) : i = j := by
+  obtain ⟨_, hvi, halli⟩ := (flow_run_spec g es i oi hoi).1 hi
+  obtain ⟨_, hvj, hallj⟩ := (flow_run_spec g es j oj hoj).1 hj
+  rcases Nat.lt_trichotomy i j with h | h | h
+  · have := hallj i h; rw [hvi] at this; exact absurd this hoi
+  · exact h
+  · have := halli j h; rw [hvj] at this; exact absurd this hoj
+
+/-- **Clean-up of the losers.**  Once the statement has completed or failed (some output of the run is not `quiet`), no
+    child flow of the group is running any more: `EndScope` stopped the flows of the other clauses. -/
+theorem children_stopped_after_completion (g : G) (es : List GroupFlow.FEv)
+    (h : ∃ o ∈ GroupFlow.outs g es, o ≠ GroupFlow.Out.quiet) :
+    (GroupFlow.stateAfter (GroupFlow.init (toDnf (normalize g))) es).children = [] := by
+  apply GroupFlow.stateAfter_children_nil _ _ rfl
+  cases hl : (GroupFlow.stateAfter (GroupFlow.init (toDnf (normalize g))) es).live with
+  | false => rfl
+  | true =>
+    obtain ⟨o, ho, hne⟩ := h
+    exact absurd ((GroupFlow.stateAfter_live_iff es _ rfl).1 hl o ho) hne
+
 /-! ## non-vacuity and kernel-evaluated tests (labelled as tests: finite facts) -/
 
 /-- the running example `(A and (B or C)) or D` with A=0, B=1, C=2, D=3, irrelevant event 9 -/
@@ -240,7 +806,839 @@ example : ∀ c ∈ toDnf (normalize ex1), c ≠ [] := by decide
 example : ex1.noEmptyAnd = true := by decide
 example : vmMarkers [[0, 1], [0]] [1, 0] [0] = [false, true] := by decide
 example : vmMarkers [[0, 1], [0]] [1, 0] [1] = [false, true] := by decide
+-- tests of the flow-level machine on `(f0 and f1) or f2`: f0 fails, f1 finishes, f2 fails -> failure path at index 2; f2 finishes -> marker
+example : GroupFlow.outs (.or [.and [.atom 0, .atom 1], .atom 2]) [.fail 0, .fin 1, .fail 2, .fin 0] = [.quiet, .quiet, .failed, .quiet] := by decide
+example : GroupFlow.outs (.or [.and [.atom 0, .atom 1], .atom 2]) [.fail 0, .fin 1, .fin 2] = [.quiet, .quiet, .marker] := by decide
+-- non-vacuity of `children_stopped_after_completion`; before completion the losers are still running
+example : ∃ o ∈ GroupFlow.outs ex1 [.fin 1, .fin 0], o ≠ GroupFlow.Out.quiet := by decide
+example : (GroupFlow.stateAfter (GroupFlow.init (toDnf (normalize ex1))) [.fin 1]).children = [(0, 0), (1, 0), (1, 2), (2, 3)] := by decide
+-- test: the when checker accepts the mirror for `when (f0 and E1) or f2 / send M0 … else send ME` and recovers the clauses
+example : readBackWhen [[.send 0], [.send 1]] (some [.send 99])
+    (expandWhen (fun a => a == 0 || a == 2) [(.or [.and [.atom 0, .atom 1], .atom 2], [.send 0]), (.atom 3, [.send 1])] (some [.send 99]))
+    = some [[[0, 1], [2]], [[3]]] := by decide
 -- the hypothesis `hne` excludes exactly groups like `and []` (not expressible in Colang source)
 example : eval (fun _ => false) (.and []) = true := by decide
+
+
+/-! concrete CoreVM states for the non-vacuity examples: `match E0() and E1()` resp. `match E0() or E1()` as the interpreter sees them
+    (templates of `_expand_match_element` at positions 1 … 16, one element before), after the root head `h0` has forked `h1`, `h2` -/
+def exSpec (n : String) : CoreVM.Spec := { name := some n, specType := .event, args := [], ref := none, members := none, varName := none }
+def exCfgAnd : CoreVM.FlowCfg :=
+  { id := "main",
+    elements := #[.other, .catchFail (some "f"), .fork "u" ["l0", "l1"],
+      .label "l0", .matchOp (exSpec "E0") false, .goto (.lit (.bool true)) "e",
+      .label "l1", .matchOp (exSpec "E1") false, .goto (.lit (.bool true)) "e",
+      .label "f", .merge "u", .catchFail none, .abort,
+      .label "e", .waitHeads 2, .merge "u", .catchFail none],
+    labels := [("l0", 3), ("l1", 6), ("f", 9), ("e", 13)],
+    params := [], returnMembers := [], loopId := none, loopPriority := 0, metaTags := [] }
+def exCfgOr : CoreVM.FlowCfg :=
+  { exCfgAnd with
+    elements := #[.other, .catchFail (some "f"), .fork "u" ["l0", "l1"],
+      .label "l0", .matchOp (exSpec "E0") false, .goto (.lit (.bool true)) "e",
+      .label "l1", .matchOp (exSpec "E1") false, .goto (.lit (.bool true)) "e",
+      .label "f", .waitHeads 2, .merge "u", .catchFail none, .abort,
+      .label "e", .merge "u", .catchFail none],
+    labels := [("l0", 3), ("l1", 6), ("f", 9), ("e", 14)] }
+
+def exIxs : CoreVM.IxS :=
+  ((((({} : CoreVM.IxS).apply (.addInst "m" "h0" none) (by decide)).apply (.setPos "m" "h0" 2 none) (by decide)).apply
+    (.setStatus "m" "h0" .inactive none) (by decide)).apply (.fork "m" "h1" none 4 none) (by decide)).apply
+    (.fork "m" "h2" none 7 none) (by decide)
+
+def exX : CoreVM.InstX := { flowId := "main", loopId := none, hierPos := "" }
+def exVM (cfg : CoreVM.FlowCfg) : CoreVM.VM := { ixs := exIxs, r := { prog := { flows := [cfg] }, fx := [("m", exX)] } }
+def exInst : CoreIndex.Inst := { uid := "m", status := .waiting, heads := [
+  { uid := "h0", pos := 2, status := .inactive, elem := none }, { uid := "h1", pos := 4, status := .active, elem := none },
+  { uid := "h2", pos := 7, status := .active, elem := none }] }
+
+-- non-vacuity of `groupvm_is_corevm_partial`: both member heads of `match E0() and E1()`, event E0
+example : ∃ s' i', CoreVM.runMembers 4 "m" (CoreVM.matchingU 0 [("h1", 4), ("h2", 7)] [(0, .atMatch), (1, .atMatch)]) (exVM exCfgAnd) = .ok () s' ∧
+    CoreVM.FlowAt s' "m" i' exX exCfgAnd ∧ s'.r = (exVM exCfgAnd).r ∧
+    CoreVM.hview i' = [("h0", 2, .inactive)] ++ CoreVM.renderU 14 [("h1", 4), ("h2", 7)] (p1Members 0 2 [] [(0, .atMatch), (1, .atMatch)]) :=
+  groupvm_is_corevm_partial 1 (exVM exCfgAnd) "m" exInst exX exCfgAnd "e" "u" 13 2 0 [("h0", 2, .inactive)] [("h1", 4), ("h2", 7)]
+    [(0, .atMatch), (1, .atMatch)]
+    { hi := rfl, hx := rfl, hc := rfl } rfl
+    { hl := rfl, hsize := by decide, hw := rfl, hm := rfl }
+    (by intro u hu; simp at hu; rcases hu with rfl | rfl <;> exact ⟨rfl, by decide⟩)
+    rfl (by decide) rfl rfl
+
+
+
+-- non-vacuity of `groupvm_is_corevm_partial_expandAnd`: a flow configuration built from the mirror's own output for the clause [0, 1]
+def exCfgGen : CoreVM.FlowCfg :=
+  { exCfgAnd with
+    elements := (CoreVM.Prim.other :: (expandAnd [0, 1] 0).1.map (CoreVM.toCore fun a => exSpec (if a = 0 then "E0" else "E1"))).toArray,
+    labels := [(CoreVM.nmOf 3, 3), (CoreVM.nmOf 4, 6), (CoreVM.nmOf 1, 9), (CoreVM.nmOf 2, 13)] }
+example : CoreVM.ContainsAt exCfgGen (fun a => exSpec (if a = 0 then "E0" else "E1")) 1 (expandAnd [0, 1] 0).1 ∧
+    exCfgGen.label (CoreVM.nmOf (0 + 2)) = some (1 + 2 + 3 * [0, 1].length + 4) := by
+  refine ⟨⟨by decide, ?_⟩, by decide⟩
+  intro j hj
+  have : j < 16 := hj
+  rcases j with _|_|_|_|_|_|_|_|_|_|_|_|_|_|_|_|j <;> first | rfl | omega
+-- non-vacuity of `groupvm_is_corevm_partial_or`: both branch heads of `match E0() or E1()`, event E1
+example : ∃ s' i', CoreVM.runMembers 3 "m" (CoreVM.matchingB 1 [("h1", 4), ("h2", 7)] [.single 0, .single 1]) (exVM exCfgOr) = .ok () s' ∧
+    CoreVM.FlowAt s' "m" i' exX exCfgOr ∧ s'.r = (exVM exCfgOr).r ∧
+    CoreVM.hview i' = [("h0", 2, .inactive)] ++ CoreVM.renderB 15 [("h1", 4), ("h2", 7)] (p1Brs 1 0 [.single 0, .single 1]).1 ∧
+    i'.status = exInst.status :=
+  groupvm_is_corevm_partial_or 1 (exVM exCfgOr) "m" exInst exX exCfgOr "e" "u" 14 1 [("h0", 2, .inactive)] [("h1", 4), ("h2", 7)]
+    [.single 0, .single 1]
+    { hi := rfl, hx := rfl, hc := rfl } rfl
+    { hl := rfl, hsize := by decide, hm := rfl }
+    (by intro u hu; simp at hu; rcases hu with rfl | rfl <;> exact ⟨rfl, by decide⟩)
+    rfl rfl (by decide) rfl
+-- test: what the theorem's conclusion says on the and-example: E0 arrives, h1 parks on WaitForHeads (position 14), h2 stays
+example : CoreVM.renderU 14 [("h1", 4), ("h2", 7)] (p1Members 0 2 [] [(0, .atMatch), (1, .atMatch)])
+    = [("h1", 14, .active), ("h2", 7, .active)] := by decide
+
+/-! non-vacuity: concrete CoreVM states -/
+
+/-- before the fork: the root head `h0` ACTIVE on `CatchPatternFailure` (position 1) -/
+def exIxsRoot : CoreVM.IxS :=
+  (({} : CoreVM.IxS).apply (.addInst "m" "h0" none) (by decide)).apply (.setPos "m" "h0" 1 none) (by decide)
+def exVMRoot : CoreVM.VM := { ixs := exIxsRoot, r := { prog := { flows := [exCfgAnd] }, fx := [("m", exX)] } }
+def exInstRoot : CoreIndex.Inst := { uid := "m", status := .waiting, heads := [{ uid := "h0", pos := 1, status := .active, elem := none }] }
+
+theorem uidOf_ne_h0 (m : Nat) : CoreVM.uidOf m ≠ "h0" := by
+  intro e
+  have := congrArg String.toList e
+  simp only [CoreVM.uidOf, toString, String.toList_append] at this
+  cases this
+
+-- non-vacuity of `groupvm_is_corevm_partial_fork`: every hypothesis holds of the root head of `match E0() and E1()` before the fork
+example :=
+  groupvm_is_corevm_partial_fork 1 exVMRoot "m" "h0" exInstRoot exX exCfgAnd { uid := "h0", pos := 1, status := .active, elem := none }
+    "f" "u" [("l0", 3), ("l1", 6)]
+    { hi := rfl, hx := rfl, hc := rfl, hh := rfl, hlt := by decide, hst := by decide } rfl rfl rfl (by decide) rfl
+    (by
+      intro lp hlp
+      simp at hlp
+      rcases hlp with rfl | rfl
+      · exact ⟨rfl, by decide, CoreVM.notMatchAt_of _ _ _ (by decide) rfl rfl⟩
+      · exact ⟨rfl, by decide, CoreVM.notMatchAt_of _ _ _ (by decide) rfl rfl⟩)
+    (by
+      intro lp hlp
+      simp at hlp
+      rcases hlp with rfl | rfl
+      · exact ⟨by decide, exSpec "E0", false, "E0", rfl, rfl, rfl, rfl⟩
+      · exact ⟨by decide, exSpec "E1", false, "E1", rfl, rfl, rfl, rfl⟩)
+    (by decide)
+    (by intro m _ hm; simp [exInstRoot, CoreIndex.Inst.headUids] at hm; exact uidOf_ne_h0 m hm)
+
+/-- after phase 1 of `match E0() and E1()` with both events received: `h1` parked on the wait element, `h2` MERGING -/
+def exIxsMerging : CoreVM.IxS :=
+  (((((({} : CoreVM.IxS).apply (.addInst "m" "h0" none) (by decide)).apply (.setPos "m" "h0" 2 none) (by decide)).apply
+    (.setStatus "m" "h0" .inactive none) (by decide)).apply (.fork "m" "h1" none 14 none) (by decide)).apply
+    (.fork "m" "h2" none 15 none) (by decide)).apply (.setStatus "m" "h2" .merging none) (by decide)
+def exXFork : CoreVM.InstX := { exX with forkUids := [("u", "h0")] }
+def exVMMerging : CoreVM.VM :=
+  { ixs := exIxsMerging,
+    r := { prog := { flows := [exCfgAnd] }, fx := [("m", exXFork)], hx := [(("m", "h0"), { childHeadUids := ["h1", "h2"] })] } }
+def exInstMerging : CoreIndex.Inst := { uid := "m", status := .waiting, heads := [
+  { uid := "h0", pos := 2, status := .inactive, elem := none }, { uid := "h1", pos := 14, status := .active, elem := none },
+  { uid := "h2", pos := 15, status := .merging, elem := none }] }
+
+-- non-vacuity of `groupvm_is_corevm_partial_merge`
+example :=
+  groupvm_is_corevm_partial_merge 1 exVMMerging "m" exInstMerging exXFork exCfgAnd "e" "u" 13 2 2 "h0" [("h1", 4), ("h2", 7)]
+    [(0, .atWait), (1, .merging)] 1 ("h2", 7) 1
+    { hi := rfl, hx := rfl, hc := rfl } { hl := rfl, hsize := by decide, hw := rfl, hm := rfl } rfl rfl (by decide) rfl rfl
+    (by
+      intro j' m' h1 h2
+      rcases j' with _ | _ | j'
+      · simp at h1; subst h1; exact Or.inl rfl
+      · exact absurd rfl h2
+      · simp at h1)
+    rfl rfl (by intro c hc; simp at hc; rcases hc with rfl | rfl <;> rfl) (by decide) (by decide)
+
+
+/-- the state of `exVM` with the fork registered and the children recorded (as the fork segment leaves it) -/
+def exVMFull (cfg : CoreVM.FlowCfg) : CoreVM.VM :=
+  { ixs := exIxs, r := { prog := { flows := [cfg] }, fx := [("m", exXFork)], hx := [(("m", "h0"), { childHeadUids := ["h1", "h2"] })] } }
+
+-- non-vacuity of `groupvm_is_corevm_partial_and_event`: `match E0() and E1()`, both heads on their match elements, event E0
+example :=
+  groupvm_is_corevm_partial_and_event 1 (exVMFull exCfgAnd) "m" exInst exXFork exCfgAnd "e" "u" 13 2 0 "h0" [("h1", 4), ("h2", 7)]
+    [(0, .atMatch), (1, .atMatch)]
+    { hi := rfl, hx := rfl, hc := rfl } rfl { hl := rfl, hsize := by decide, hw := rfl, hm := rfl }
+    (by intro u hu; simp at hu; rcases hu with rfl | rfl <;> exact ⟨rfl, by decide⟩)
+    rfl (by decide) (by intro m hm; simp at hm; rcases hm with rfl | rfl <;> exact Or.inl rfl) rfl rfl rfl
+    (by intro c hc; simp at hc; rcases hc with rfl | rfl <;> rfl) (by decide) (by decide)
+
+-- non-vacuity of `groupvm_is_corevm_partial_or_event`: `match E0() or E1()`, event E1: the second branch completes the group
+example :=
+  groupvm_is_corevm_partial_or_event 1 (exVMFull exCfgOr) "m" exInst exXFork exCfgOr "e" "u" 14 2 1 "h0" [("h1", 4), ("h2", 7)]
+    [.single 0, .single 1] 1 ("h2", 7)
+    { hi := rfl, hx := rfl, hc := rfl } rfl { hl := rfl, hsize := by decide, hm := rfl }
+    (by intro u hu; simp at hu; rcases hu with rfl | rfl <;> exact ⟨rfl, by decide⟩)
+    rfl rfl (by decide) rfl rfl (by decide)
+    (by
+      intro j' m' h1 h2
+      rcases j' with _ | _ | j'
+      · have : m' = Br.single 0 := by
+          have : (p1Brs 1 0 [Br.single 0, Br.single 1]).1[0]? = some (Br.single 0) := by decide
+          rw [this] at h1; cases h1; rfl
+        exact ⟨0, this⟩
+      · exact absurd rfl h2
+      · have : (p1Brs 1 0 [Br.single 0, Br.single 1]).1.length = 2 := by decide
+        have : (p1Brs 1 0 [Br.single 0, Br.single 1]).1[j' + 2]? = none := List.getElem?_eq_none (by omega)
+        rw [this] at h1; cases h1)
+    (by decide) rfl rfl (by intro c hc; simp at hc; rcases hc with rfl | rfl <;> rfl) (by decide) (by decide)
+
+/-- `match E0() or E0()` after event E0: both branch heads MERGING on the or-level `MergeHeads` (position 15), one recorded tie-break -/
+def exIxsTwo : CoreVM.IxS :=
+  ((((((({} : CoreVM.IxS).apply (.addInst "m" "h0" none) (by decide)).apply (.setPos "m" "h0" 2 none) (by decide)).apply
+    (.setStatus "m" "h0" .inactive none) (by decide)).apply (.fork "m" "h1" none 15 none) (by decide)).apply
+    (.fork "m" "h2" none 15 none) (by decide)).apply (.setStatus "m" "h1" .merging none) (by decide)).apply
+    (.setStatus "m" "h2" .merging none) (by decide)
+def exVMTwo (choices : List Nat) : CoreVM.VM :=
+  { ixs := exIxsTwo,
+    r := { prog := { flows := [exCfgOr] }, fx := [("m", exXFork)], hx := [(("m", "h0"), { childHeadUids := ["h1", "h2"] })],
+           choices := choices } }
+def exInstTwo : CoreIndex.Inst := { uid := "m", status := .waiting, heads := [
+  { uid := "h0", pos := 2, status := .inactive, elem := none }, { uid := "h1", pos := 15, status := .merging, elem := none },
+  { uid := "h2", pos := 15, status := .merging, elem := none }] }
+
+-- non-vacuity of `groupvm_is_corevm_partial_merge_choice`: `random.choice` returns index 0 = the head `h1` that is being advanced
+example :=
+  groupvm_is_corevm_partial_merge_choice 1 (exVMTwo [0]) "m" "h1" exInstTwo exXFork exCfgOr
+    { uid := "h1", pos := 15, status := .merging, elem := none } { uid := "h0", pos := 2, status := .inactive, elem := none }
+    "u" "h0" ["h1", "h2"]
+    { hi := rfl, hx := rfl, hc := rfl, hh := rfl, hlt := by decide, hst := by decide } rfl rfl rfl rfl rfl
+    (by intro c hc; simp at hc; rcases hc with rfl | rfl <;> rfl)
+    (by intro c hc; simp at hc; rcases hc with rfl | rfl <;> exact ⟨_, rfl⟩)
+    ["h1", "h2"] (by decide)
+    (Or.inr ⟨0, [], [], rfl, by decide, rfl, by decide, by intro k hk; simp at hk; rcases hk with rfl | rfl <;> rfl⟩)
+    (by decide) (by decide) (by decide) (by decide) rfl (by decide) (by decide) (by decide)
+
+-- non-vacuity of `groupvm_is_corevm_partial_merge_lose`: `random.choice` returns index 1 = the other head
+example :=
+  groupvm_is_corevm_partial_merge_lose 1 (exVMTwo [1]) "m" "h1" exInstTwo exXFork exCfgOr
+    { uid := "h1", pos := 15, status := .merging, elem := none } { uid := "h0", pos := 2, status := .inactive, elem := none }
+    "u" "h0" ["h1", "h2"]
+    { hi := rfl, hx := rfl, hc := rfl, hh := rfl, hlt := by decide, hst := by decide } rfl rfl rfl rfl rfl
+    (by intro c hc; simp at hc; rcases hc with rfl | rfl <;> rfl)
+    (by intro c hc; simp at hc; rcases hc with rfl | rfl <;> exact ⟨_, rfl⟩)
+    ["h1", "h2"] (by decide) 1 [] [] "h2" rfl (by decide) rfl (by decide) (by decide)
+    (by intro k hk; simp at hk; rcases hk with rfl | rfl <;> rfl)
+    (by decide) (by decide) (by decide) (by decide) rfl (by decide) (by decide) (by decide)
+
+/-- `match E0() or E0()` before the event, with a recorded tie-break -/
+def exVMOr2 (choices : List Nat) : CoreVM.VM :=
+  { ixs := exIxs, r := { prog := { flows := [exCfgOr] }, fx := [("m", exXFork)], hx := [(("m", "h0"), { childHeadUids := ["h1", "h2"] })],
+                          choices := choices } }
+
+-- non-vacuity of `groupvm_is_corevm_partial_or_event_all`: both branches wait for atom 0, `random.choice` returns 1 (the first head loses)
+example :=
+  groupvm_is_corevm_partial_or_event_all 1 (exVMOr2 [1]) "m" exInst exXFork exCfgOr "e" "u" 14 2 0 "h0" [("h1", 4), ("h2", 7)]
+    [.single 0, .single 0] [] 1
+    { F := { hi := rfl, hx := rfl, hc := rfl }, C := { hl := rfl, hsize := by decide, hm := rfl }, hv := rfl, hlen := rfl,
+      hndu := by decide, hfu := rfl, hhx := rfl,
+      hleaf := by intro c hc; simp at hc; rcases hc with rfl | rfl <;> rfl,
+      hsc := by intro c hc; simp at hc; rcases hc with rfl | rfl <;> rfl,
+      hmu := by decide, hfp := by decide, hns := by decide }
+    rfl (by intro u hu; simp at hu; rcases hu with rfl | rfl <;> exact ⟨rfl, by decide⟩)
+    rfl (by decide) (by decide) ⟨by decide, Or.inr trivial⟩
+
+-- non-vacuity of `groupvm_is_corevm_partial_and_run`: `match E0() and E1()` with both member heads on their match elements; ANY event sequence
+example (es : List Nat) :=
+  groupvm_is_corevm_partial_and_run 1 "m" exXFork exCfgAnd "e" "u" 13 2 "h0" [("h1", 4), ("h2", 7)] 2 rfl
+    { hl := rfl, hsize := by decide, hw := rfl, hm := rfl }
+    (by intro u hu; simp at hu; rcases hu with rfl | rfl <;> exact ⟨rfl, by decide⟩)
+    (by decide) rfl (by decide) (by decide) es (exVMFull exCfgAnd) exInst [(0, .atMatch), (1, .atMatch)]
+    { hi := rfl, hx := rfl, hc := rfl } rfl rfl
+    (by intro m hm; simp at hm; rcases hm with rfl | rfl <;> exact Or.inl rfl) (by decide) rfl rfl
+    (by intro c hc; simp at hc; rcases hc with rfl | rfl <;> rfl)
+
+theorem uidOf_ne_u (m : Nat) : CoreVM.uidOf m ≠ "u" := by
+  intro e
+  have := congrArg String.toList e
+  simp only [CoreVM.uidOf, toString, String.toList_append] at this
+  have h2 := congrArg List.length this
+  simp at h2
+
+/-- the root head of `match E0() and E1()` on `CatchPatternFailure`, with its HeadX record -/
+def exVMRoot2 : CoreVM.VM :=
+  { ixs := exIxsRoot, r := { prog := { flows := [exCfgAnd] }, fx := [("m", exX)], hx := [(("m", "h0"), {})] } }
+
+-- non-vacuity of `groupvm_is_corevm_partial_and_group`: ANY event sequence
+example (es : List Nat) :=
+  groupvm_is_corevm_partial_and_group 1 exVMRoot2 "m" "h0" exInstRoot exX exCfgAnd { uid := "h0", pos := 1, status := .active, elem := none }
+    "f" "u" "e" [("l0", 3), ("l1", 6)] [0, 1] 13 {}
+    { hi := rfl, hx := rfl, hc := rfl, hh := rfl, hlt := by decide, hst := by decide } rfl rfl rfl (by decide) rfl
+    (by
+      intro lp hlp
+      simp at hlp
+      rcases hlp with rfl | rfl
+      · exact ⟨rfl, by decide, CoreVM.notMatchAt_of _ _ _ (by decide) rfl rfl⟩
+      · exact ⟨rfl, by decide, CoreVM.notMatchAt_of _ _ _ (by decide) rfl rfl⟩)
+    (by
+      intro lp hlp
+      simp at hlp
+      rcases hlp with rfl | rfl
+      · exact ⟨by decide, exSpec "E0", false, "E0", rfl, rfl, rfl, rfl⟩
+      · exact ⟨by decide, exSpec "E1", false, "E1", rfl, rfl, rfl, rfl⟩)
+    rfl
+    (by intro m _ hm; simp [exInstRoot, CoreIndex.Inst.headUids] at hm; exact uidOf_ne_h0 m hm)
+    rfl rfl rfl
+    (by
+      intro m _
+      have : (("m", CoreVM.uidOf m) : CoreIndex.Key) ≠ ("m", "h0") := by
+        intro e; exact uidOf_ne_h0 m (by simpa using e)
+      have h2 : ¬ ("h0" = CoreVM.uidOf m) := fun e => uidOf_ne_h0 m e.symm
+      simp [exVMRoot2, OMap.lookup, this, h2])
+    uidOf_ne_u
+    { hl := rfl, hsize := by decide, hw := rfl, hm := rfl }
+    (by intro lp hlp; simp at hlp; rcases hlp with rfl | rfl <;> exact ⟨rfl, by decide⟩)
+    (by decide) rfl (by decide) es
+
+-- non-vacuity of `groupvm_is_corevm_partial_or_run`: `match E0() or E0()` (both branches wait for atom 0), ANY event sequence
+example (es : List Nat) :=
+  groupvm_is_corevm_partial_or_run 1 "m" exXFork exCfgOr "e" "u" 14 2 "h0" [("h1", 4), ("h2", 7)] [0, 0] [] rfl
+    (by intro u hu; simp at hu; rcases hu with rfl | rfl <;> exact ⟨rfl, by decide⟩) rfl es (exVMOr2 [0, 0]) exInst
+    { F := { hi := rfl, hx := rfl, hc := rfl }, C := { hl := rfl, hsize := by decide, hm := rfl }, hv := rfl, hlen := rfl,
+      hndu := by decide, hfu := rfl, hhx := rfl,
+      hleaf := by intro c hc; simp at hc; rcases hc with rfl | rfl <;> rfl,
+      hsc := by intro c hc; simp at hc; rcases hc with rfl | rfl <;> rfl,
+      hmu := by decide, hfp := by decide, hns := by decide }
+    (by
+      intro n hn
+      have : n ≤ 2 := hn
+      rcases n with _ | _ | _ | n
+      · trivial
+      · trivial
+      · exact ⟨by decide, Or.inl rfl⟩
+      · omega)
+
+/-- `match E0() and E1()` followed by `send Hit()`: the root head back ACTIVE on the last `MergeHeads` (position 15) -/
+def exCfgAndHit : CoreVM.FlowCfg :=
+  { exCfgAnd with elements := exCfgAnd.elements ++ #[.sendOp (exSpec "Hit"), .matchOp (exSpec "Never") false] }
+def exIxsExit : CoreVM.IxS :=
+  (({} : CoreVM.IxS).apply (.addInst "m" "h0" none) (by decide)).apply (.setPos "m" "h0" 15 none) (by decide)
+def exVMExit : CoreVM.VM :=
+  { ixs := exIxsExit, r := { prog := { flows := [exCfgAndHit] }, fx := [("m", exX)], hx := [(("m", "h0"), { catchLabels := ["f"] })] } }
+
+-- non-vacuity of `groupvm_is_corevm_partial_exit`
+example :=
+  groupvm_is_corevm_partial_exit 1 exVMExit "m" "h0" { uid := "m", status := .waiting, heads := [{ uid := "h0", pos := 15, status := .active, elem := none }] }
+    exX exCfgAndHit { uid := "h0", pos := 15, status := .active, elem := none } (exSpec "Hit") "Hit"
+    { hi := rfl, hx := rfl, hc := rfl, hh := rfl, hlt := by decide, hst := by decide } (by decide) rfl rfl ⟨rfl, rfl, rfl⟩ rfl (by decide) rfl
+
+/-- the root head of `match E0() or E1()` on `CatchPatternFailure`, with its HeadX record and recorded tie-breaks -/
+def exVMRootOr : CoreVM.VM :=
+  { ixs := exIxsRoot, r := { prog := { flows := [exCfgOr] }, fx := [("m", exX)], hx := [(("m", "h0"), {})], choices := [0, 0] } }
+
+-- non-vacuity of `groupvm_is_corevm_partial_or_group`: ANY event sequence
+example (es : List Nat) :=
+  groupvm_is_corevm_partial_or_group 1 exVMRootOr "m" "h0" exInstRoot exX exCfgOr { uid := "h0", pos := 1, status := .active, elem := none }
+    "f" "u" "e" [("l0", 3), ("l1", 6)] [0, 1] 14 {}
+    { hi := rfl, hx := rfl, hc := rfl, hh := rfl, hlt := by decide, hst := by decide } rfl rfl rfl (by decide) rfl
+    (by
+      intro lp hlp
+      simp at hlp
+      rcases hlp with rfl | rfl
+      · exact ⟨rfl, by decide, CoreVM.notMatchAt_of _ _ _ (by decide) rfl rfl⟩
+      · exact ⟨rfl, by decide, CoreVM.notMatchAt_of _ _ _ (by decide) rfl rfl⟩)
+    (by
+      intro lp hlp
+      simp at hlp
+      rcases hlp with rfl | rfl
+      · exact ⟨by decide, exSpec "E0", false, "E0", rfl, rfl, rfl, rfl⟩
+      · exact ⟨by decide, exSpec "E1", false, "E1", rfl, rfl, rfl, rfl⟩)
+    rfl
+    (by intro m _ hm; simp [exInstRoot, CoreIndex.Inst.headUids] at hm; exact uidOf_ne_h0 m hm)
+    rfl rfl rfl
+    (by
+      intro m _
+      have : (("m", CoreVM.uidOf m) : CoreIndex.Key) ≠ ("m", "h0") := by
+        intro e; exact uidOf_ne_h0 m (by simpa using e)
+      have h2 : ¬ ("h0" = CoreVM.uidOf m) := fun e => uidOf_ne_h0 m e.symm
+      simp [exVMRootOr, OMap.lookup, this, h2])
+    uidOf_ne_u
+    { hl := rfl, hsize := by decide, hm := rfl }
+    (by intro lp hlp; simp at hlp; rcases hlp with rfl | rfl <;> exact ⟨rfl, by decide⟩)
+    (by decide) rfl
+    (by
+      intro n hn
+      have : n ≤ 2 := hn
+      rcases n with _ | _ | _ | n
+      · trivial
+      · trivial
+      · exact ⟨by decide, Or.inl rfl⟩
+      · omega)
+    es
+
+/-- the root head on the first element of the mirror's own and-template for the clause [0, 1] -/
+def exVMRootGen : CoreVM.VM :=
+  { ixs := exIxsRoot, r := { prog := { flows := [exCfgGen] }, fx := [("m", exX)], hx := [(("m", "h0"), {})] } }
+
+-- non-vacuity of `groupvm_is_corevm_partial_and_group_mirror`: ANY event sequence
+example (es : List Nat) :=
+  groupvm_is_corevm_partial_and_group_mirror 1 exVMRootGen "m" "h0" exInstRoot exX exCfgGen
+    { uid := "h0", pos := 1, status := .active, elem := none } (fun a => exSpec (if a = 0 then "E0" else "E1")) 1 0 [0, 1] {} (by decide)
+    { hi := rfl, hx := rfl, hc := rfl, hh := rfl, hlt := by decide, hst := by decide } rfl rfl rfl
+    ⟨by decide, by
+      intro j hj
+      have : j < 16 := hj
+      rcases j with _|_|_|_|_|_|_|_|_|_|_|_|_|_|_|_|j <;> first | rfl | omega⟩
+    (by intro j hj; have : j < 2 := hj; rcases j with _ | _ | j <;> first | rfl | omega)
+    rfl (fun a => ⟨_, rfl, rfl, rfl⟩) rfl
+    (by intro m _ hm; simp [exInstRoot, CoreIndex.Inst.headUids] at hm; exact uidOf_ne_h0 m hm)
+    rfl rfl rfl
+    (by
+      intro m _
+      have : (("m", CoreVM.uidOf m) : CoreIndex.Key) ≠ ("m", "h0") := by
+        intro e; exact uidOf_ne_h0 m (by simpa using e)
+      have h2 : ¬ ("h0" = CoreVM.uidOf m) := fun e => uidOf_ne_h0 m e.symm
+      simp [exVMRootGen, OMap.lookup, this, h2])
+    es
+
+/-- **groupvm_is_corevm_partial (the interpreter model's real `_advance_head_front` on a matching member head).**  The segment theorems
+    drive `slide` through the stand-in `advanceMember` (`head.position += 1; slide`).  This theorem shows that CoreVM's own
+    `advanceHeadFront` — with its flow-status bookkeeping, the try/except around `slide`, the "all heads are waiting" scan, the finished /
+    aborted handling and the final filter — does exactly that on a matching member head of an and-clause (flow STARTED, every head inside
+    the program): the head parks on `WaitForHeads n` or ends MERGING on `MergeHeads` according to the count of parked heads, nothing
+    else changes, and the head is handed back as actionable iff it is MERGING (so that the merging loop advances it again). -/
+theorem groupvm_is_corevm_partial_advance_head_front (fuel : Nat) (s : CoreVM.VM) (f : CoreIndex.FUid) (h : CoreIndex.HUid)
+    (i : CoreIndex.Inst) (x : CoreVM.InstX) (cfg : CoreVM.FlowCfg) (hd : CoreIndex.Head) (l u : String) (pe n : Nat)
+    (H : CoreVM.HeadAt s f h i x cfg hd) (hown : x.ctxOwner = none) (hact : hd.status = .active) (hstarted : i.status = .started)
+    (C : CoreVM.ClauseShape cfg l u pe n)
+    (hgoto : cfg.elements[hd.pos + 1]! = .goto (.lit (.bool true)) l) (hlt : hd.pos + 1 < pe + 1)
+    (hnd : ((CoreVM.hview i).map (·.1)).Nodup) (hrange : ∀ o ∈ i.heads, o.pos < cfg.elements.size) :
+    ∃ s' i', CoreVM.advanceHeadFront (fuel + 4) [(f, h)] s
+        = .ok (if ((CoreVM.hview i).filter fun t => t.2.2 ≠ .inactive && t.2.1 = pe + 1).length + 1 ≥ n then [(f, h)] else []) s' ∧
+      CoreVM.FlowAt s' f i' x cfg ∧ s'.r = s.r ∧
+      CoreVM.hview i' = (CoreVM.hview i).map
+        (if ((CoreVM.hview i).filter fun t => t.2.2 ≠ .inactive && t.2.1 = pe + 1).length + 1 ≥ n
+          then CoreVM.setCore h (pe + 2) .merging else CoreVM.setCore h (pe + 1) .active) :=
+  CoreVM.advanceHeadFront_member fuel s f h i x cfg hd l u pe n H hown hact hstarted C hgoto hlt hnd hrange
+
+/-- `match E0() and E1()` in a STARTED flow: the root INACTIVE on the fork, both member heads on their match elements -/
+def exIxsStarted : CoreVM.IxS := exIxs.apply (.setFlowStatus "m" .started) (by decide)
+def exVMStarted : CoreVM.VM := { ixs := exIxsStarted, r := { prog := { flows := [exCfgAnd] }, fx := [("m", exXFork)] } }
+def exInstStarted : CoreIndex.Inst := { exInst with status := .started }
+
+-- non-vacuity of `groupvm_is_corevm_partial_advance_head_front`
+example :=
+  groupvm_is_corevm_partial_advance_head_front 1 exVMStarted "m" "h1" exInstStarted exXFork exCfgAnd
+    { uid := "h1", pos := 4, status := .active, elem := none } "e" "u" 13 2
+    { hi := rfl, hx := rfl, hc := rfl, hh := rfl, hlt := by decide, hst := by decide } rfl rfl rfl
+    { hl := rfl, hsize := by decide, hw := rfl, hm := rfl } rfl (by decide) (by decide)
+    (by intro o ho; simp [exInstStarted, exInst] at ho; rcases ho with rfl | rfl | rfl <;> decide)
+
+/-- **groupvm_is_corevm_partial (and-clause, phase 1, through the interpreter model's real `_advance_head_front`).**  The hypotheses of
+    `groupvm_is_corevm_partial`, the flow STARTED and every head inside the program.  CoreVM's own `advanceHeadFront`, called with the
+    LIST of member heads that wait on `match e` (what `runToCompletion` hands it for one event) — its loop with the `actionable`
+    accumulator, the flow-status bookkeeping, the try/except around `slide`, the "all heads are waiting" scan and the final filter —
+    ends in exactly the state `GroupVM.p1Members e n [] ms` describes, changes nothing else, and returns exactly the member heads
+    that are MERGING afterwards, in order: the input of the merging loop.  Any clause size, any `n`. -/
+theorem groupvm_is_corevm_partial_advance_heads (fuel : Nat) (s : CoreVM.VM) (f : CoreIndex.FUid) (i : CoreIndex.Inst) (x : CoreVM.InstX)
+    (cfg : CoreVM.FlowCfg) (l mu : String) (pe n e : Nat)
+    (others : List CoreVM.HCore) (us : List (CoreIndex.HUid × Nat)) (ms : List (Nat × MLoc))
+    (F : CoreVM.FlowAt s f i x cfg) (hown : x.ctxOwner = none) (C : CoreVM.ClauseShape cfg l mu pe n)
+    (S : CoreVM.MembersShape cfg l pe us)
+    (hlen : us.length = ms.length) (hnd : (others.map (·.1) ++ us.map (·.1)).Nodup)
+    (hoth : others.filter (CoreVM.liveAt (pe + 1)) = [])
+    (hv : CoreVM.hview i = others ++ CoreVM.renderU (pe + 1) us ms)
+    (hstarted : i.status = .started) (hrange : ∀ o ∈ i.heads, o.pos < cfg.elements.size) :
+    ∃ s' i', CoreVM.advanceHeadFront (fuel + 4) ((CoreVM.matchingU e us ms).map fun h => (f, h)) s
+        = .ok (((CoreVM.matchingU e us ms).filter fun h =>
+            decide ((h, pe + 2, CoreIndex.HeadStatus.merging) ∈ CoreVM.hview i')).map fun h => (f, h)) s' ∧
+      CoreVM.FlowAt s' f i' x cfg ∧ s'.r = s.r ∧
+      CoreVM.hview i' = others ++ CoreVM.renderU (pe + 1) us (p1Members e n [] ms) := by
+  obtain ⟨s', i', h1, h2, h3, h4, _⟩ :=
+    CoreVM.and_clause_phase1_real fuel s f i x cfg l mu pe n e others us ms F hown C S hlen hnd hoth hv hstarted hrange
+  exact ⟨s', i', h1, h2, h3, h4⟩
+
+/-- `match E0() and E1()` in a STARTED flow, E0 already received: `h1` parked on `WaitForHeads 2`, `h2` on `match E1()` -/
+def exIxsStartedWait : CoreVM.IxS :=
+  (((((({} : CoreVM.IxS).apply (.addInst "m" "h0" none) (by decide)).apply (.setPos "m" "h0" 2 none) (by decide)).apply
+    (.setStatus "m" "h0" .inactive none) (by decide)).apply (.fork "m" "h1" none 14 none) (by decide)).apply
+    (.fork "m" "h2" none 7 none) (by decide)).apply (.setFlowStatus "m" .started) (by decide)
+def exVMStartedWait : CoreVM.VM := { ixs := exIxsStartedWait, r := { prog := { flows := [exCfgAnd] }, fx := [("m", exXFork)] } }
+def exInstStartedWait : CoreIndex.Inst := { uid := "m", status := .started, heads := [
+  { uid := "h0", pos := 2, status := .inactive, elem := none }, { uid := "h1", pos := 14, status := .active, elem := none },
+  { uid := "h2", pos := 7, status := .active, elem := none }] }
+
+-- non-vacuity of `groupvm_is_corevm_partial_advance_heads`: event E1 completes the clause (the list handed over is [h2], h2 ends MERGING)
+example :=
+  groupvm_is_corevm_partial_advance_heads 1 exVMStartedWait "m" exInstStartedWait exXFork exCfgAnd "e" "u" 13 2 1 [("h0", 2, .inactive)]
+    [("h1", 4), ("h2", 7)] [(0, .atWait), (1, .atMatch)]
+    { hi := rfl, hx := rfl, hc := rfl } rfl
+    { hl := rfl, hsize := by decide, hw := rfl, hm := rfl }
+    (by intro u hu; simp at hu; rcases hu with rfl | rfl <;> exact ⟨rfl, by decide⟩)
+    rfl (by decide) rfl rfl rfl
+    (by intro o ho; simp [exInstStartedWait] at ho; rcases ho with rfl | rfl | rfl <;> decide)
+example : CoreVM.matchingU 1 [("h1", 4), ("h2", 7)] [(0, .atWait), (1, .atMatch)] = ["h2"] := by decide
+-- … and both member heads in one call (event E0 on the fresh group: the list is [h1], parked; nothing handed back)
+example :=
+  groupvm_is_corevm_partial_advance_heads 1 exVMStarted "m" exInstStarted exXFork exCfgAnd "e" "u" 13 2 0 [("h0", 2, .inactive)]
+    [("h1", 4), ("h2", 7)] [(0, .atMatch), (1, .atMatch)]
+    { hi := rfl, hx := rfl, hc := rfl } rfl
+    { hl := rfl, hsize := by decide, hw := rfl, hm := rfl }
+    (by intro u hu; simp at hu; rcases hu with rfl | rfl <;> exact ⟨rfl, by decide⟩)
+    rfl (by decide) rfl rfl rfl
+    (by intro o ho; simp [exInstStarted, exInst] at ho; rcases ho with rfl | rfl | rfl <;> decide)
+
+/-- **groupvm_is_corevm_partial (or-group of single atoms, phase 1, through the interpreter model's real `_advance_head_front`).**  The
+    hypotheses of `groupvm_is_corevm_partial_or`, the flow STARTED and every head inside the program.  CoreVM's own `advanceHeadFront`,
+    called with the LIST of branch heads that wait on `match e`, ends in exactly the state `GroupVM.p1Brs e 0 brs` describes, changes
+    nothing else, and hands ALL these heads back, in order — they are MERGING, the merging loop of `runToCompletion` advances them
+    again one by one (`groupvm_is_corevm_partial_or_event_all` is about that loop).  Any number of branches. -/
+theorem groupvm_is_corevm_partial_advance_heads_or (fuel : Nat) (s : CoreVM.VM) (f : CoreIndex.FUid) (i : CoreIndex.Inst) (x : CoreVM.InstX)
+    (cfg : CoreVM.FlowCfg) (l mu : String) (pe e : Nat)
+    (others : List CoreVM.HCore) (us : List (CoreIndex.HUid × Nat)) (brs : List Br)
+    (F : CoreVM.FlowAt s f i x cfg) (hown : x.ctxOwner = none) (C : CoreVM.OrShape cfg l mu pe) (S : CoreVM.MembersShape cfg l pe us)
+    (hlen : us.length = brs.length) (hnm : CoreVM.noMulti brs = true) (hnd : (others.map (·.1) ++ us.map (·.1)).Nodup)
+    (hv : CoreVM.hview i = others ++ CoreVM.renderB (pe + 1) us brs)
+    (hstarted : i.status = .started) (hrange : ∀ o ∈ i.heads, o.pos < cfg.elements.size) :
+    ∃ s' i', CoreVM.advanceHeadFront (fuel + 3) ((CoreVM.matchingB e us brs).map fun h => (f, h)) s
+        = .ok ((CoreVM.matchingB e us brs).map fun h => (f, h)) s' ∧
+      CoreVM.FlowAt s' f i' x cfg ∧ s'.r = s.r ∧
+      CoreVM.hview i' = others ++ CoreVM.renderB (pe + 1) us (p1Brs e 0 brs).1 ∧ i'.status = .started :=
+  CoreVM.or_group_phase1_real fuel s f i x cfg l mu pe e others us brs F hown C S hlen hnm hnd hv hstarted hrange
+
+def exVMStartedOr : CoreVM.VM := { ixs := exIxsStarted, r := { prog := { flows := [exCfgOr] }, fx := [("m", exXFork)] } }
+
+-- non-vacuity of `groupvm_is_corevm_partial_advance_heads_or`: `match E0() or E0()`, event E0: both branch heads are advanced in ONE call
+-- of the real function, both end MERGING, both are handed back
+example :=
+  groupvm_is_corevm_partial_advance_heads_or 1 exVMStartedOr "m" exInstStarted exXFork exCfgOr "e" "u" 14 0 [("h0", 2, .inactive)]
+    [("h1", 4), ("h2", 7)] [.single 0, .single 0]
+    { hi := rfl, hx := rfl, hc := rfl } rfl
+    { hl := rfl, hsize := by decide, hm := rfl }
+    (by intro u hu; simp at hu; rcases hu with rfl | rfl <;> exact ⟨rfl, by decide⟩)
+    rfl rfl (by decide) rfl rfl
+    (by intro o ho; simp [exInstStarted, exInst] at ho; rcases ho with rfl | rfl | rfl <;> decide)
+example : CoreVM.matchingB 0 [("h1", 4), ("h2", 7)] [.single 0, .single 0] = ["h1", "h2"] := by decide
+
+/-- **groupvm_is_corevm_partial (exit segment through the interpreter model's real `_advance_head_front`).**  The hypotheses of
+    `groupvm_is_corevm_partial_exit`, the flow STARTED, every head inside the program.  CoreVM's own `advanceHeadFront` on the forking
+    head (back ACTIVE on the group's last `MergeHeads`) moves it over `CatchPatternFailure(None)` onto the marker `send` behind the group
+    statement and — the "all heads are waiting" scan finds this head on an action — hands it back as actionable: the statement after
+    the group is what the interpreter executes next. -/
+theorem groupvm_is_corevm_partial_exit_real (fuel : Nat) (s : CoreVM.VM) (f : CoreIndex.FUid) (h : CoreIndex.HUid) (i : CoreIndex.Inst)
+    (x : CoreVM.InstX) (cfg : CoreVM.FlowCfg) (hd : CoreIndex.Head) (spec : CoreVM.Spec) (n : String)
+    (H : CoreVM.HeadAt s f h i x cfg hd) (hsz : hd.pos + 2 < cfg.elements.size)
+    (hc1 : cfg.elements[hd.pos + 1]! = .catchFail none) (hc2 : cfg.elements[hd.pos + 2]! = .sendOp spec)
+    (hp : CoreVM.PlainSpec spec n) (hargs : spec.args = []) (hint : CoreVM.internalEvents.contains n = false)
+    (hcl : ((OMap.lookup (f, h) s.r.hx).getD {}).catchLabels.isEmpty = false)
+    (hact : hd.status = .active) (hstarted : i.status = .started)
+    (hnd : ((CoreVM.hview i).map (·.1)).Nodup) (hrange : ∀ o ∈ i.heads, o.pos < cfg.elements.size) :
+    ∃ s' i', CoreVM.advanceHeadFront (fuel + 3) [(f, h)] s = .ok [(f, h)] s' ∧ CoreVM.FlowAt s' f i' x cfg ∧
+      CoreVM.hview i' = (CoreVM.hview i).map (CoreVM.setPosCore h (hd.pos + 2)) := by
+  obtain ⟨s', i', h1, h2, h3, _⟩ := CoreVM.group_exit_real fuel s f h i x cfg hd spec n H hsz hc1 hc2 hp hargs hint hcl hact hstarted hnd hrange
+  exact ⟨s', i', h1, h2, h3⟩
+
+def exIxsExitStarted : CoreVM.IxS := exIxsExit.apply (.setFlowStatus "m" .started) (by decide)
+def exVMExitStarted : CoreVM.VM := { exVMExit with ixs := exIxsExitStarted }
+
+-- non-vacuity of `groupvm_is_corevm_partial_exit_real`
+example :=
+  groupvm_is_corevm_partial_exit_real 1 exVMExitStarted "m" "h0"
+    { uid := "m", status := .started, heads := [{ uid := "h0", pos := 15, status := .active, elem := none }] }
+    exX exCfgAndHit { uid := "h0", pos := 15, status := .active, elem := none } (exSpec "Hit") "Hit"
+    { hi := rfl, hx := rfl, hc := rfl, hh := rfl, hlt := by decide, hst := by decide } (by decide) rfl rfl ⟨rfl, rfl, rfl⟩ rfl (by decide) rfl
+    rfl rfl (by decide) (by intro o ho; simp at ho; subst ho; decide)
+
+/-- **groupvm_is_corevm_partial (the merging loop's call of the interpreter model's real `_advance_head_front` on an and-group).**  After
+    phase 1 (`…_advance_heads`) the member head that completed the clause is MERGING and was handed back; `runToCompletion`'s merging loop
+    calls `_advance_head_front` with it (event queue empty).  The hypotheses of `groupvm_is_corevm_partial_merge`, the flow STARTED, the
+    group statement followed by `CatchPatternFailure(None)` and the marker `send`: CoreVM's own `advanceHeadFront` merges (the forking
+    head takes over, every member head is deleted), its NESTED call advances the forking head over `CatchPatternFailure(None)` onto the
+    statement after the group, where it is actionable; back in the outer call the merged head is detached (not cleared), nothing is
+    finished or aborted; the forking head — the only head left, on the marker — is what the main loop gets.  Any clause size. -/
+theorem groupvm_is_corevm_partial_merge_real (fuel : Nat) (s : CoreVM.VM) (f : CoreIndex.FUid) (i : CoreIndex.Inst) (x : CoreVM.InstX)
+    (cfg : CoreVM.FlowCfg) (l mu : String) (pe n fp : Nat)
+    (r : CoreIndex.HUid) (us : List (CoreIndex.HUid × Nat)) (ms : List (Nat × MLoc)) (j : Nat) (uj : CoreIndex.HUid × Nat) (a : Nat)
+    (spec : CoreVM.Spec) (nm : String)
+    (F : CoreVM.FlowAt s f i x cfg) (C : CoreVM.ClauseShape cfg l mu pe n)
+    (hv : CoreVM.hview i = (r, fp, CoreIndex.HeadStatus.inactive) :: CoreVM.renderU (pe + 1) us ms)
+    (hlen : us.length = ms.length) (hndu : (r :: us.map (·.1)).Nodup)
+    (hju : us[j]? = some uj) (hjm : ms[j]? = some (a, MLoc.merging))
+    (hone : ∀ j' m', ms[j']? = some m' → j' ≠ j → m'.2 = MLoc.atWait ∨ m'.2 = MLoc.atMatch)
+    (hfu : OMap.lookup mu x.forkUids = some r)
+    (hhx : ((OMap.lookup (f, r) s.r.hx).getD {}).childHeadUids = us.map (·.1))
+    (hleaf : ∀ c ∈ us.map (·.1), ((OMap.lookup (f, c) s.r.hx).getD {}).childHeadUids = [])
+    (hmu : mu ∉ us.map (·.1)) (hfp : fp ≠ pe + 2)
+    (hstarted : i.status = .started) (hq : s.r.queue = []) (hclr : s.r.cleared.contains (f, uj.1) = false)
+    (hsz4 : pe + 4 < cfg.elements.size) (hc1 : cfg.elements[pe + 3]! = .catchFail none) (hc2 : cfg.elements[pe + 4]! = .sendOp spec)
+    (hp : CoreVM.PlainSpec spec nm) (hargs : spec.args = []) (hint : CoreVM.internalEvents.contains nm = false)
+    (hcl : ((OMap.lookup (f, uj.1) s.r.hx).getD {}).catchLabels.isEmpty = false) :
+    ∃ s' i' x', CoreVM.advanceHeadFront (fuel + 5) [(f, uj.1)] s = .ok [(f, r)] s' ∧ CoreVM.FlowAt s' f i' x' cfg ∧
+      CoreVM.hview i' = [(r, pe + 4, CoreIndex.HeadStatus.active)] ∧ s'.r.queue = s.r.queue :=
+  CoreVM.and_group_merge_real fuel s f i x cfg l mu pe n fp r us ms j uj a spec nm F C hv hlen hndu hju hjm hone hfu hhx hleaf hmu hfp
+    hstarted hq hclr hsz4 hc1 hc2 hp hargs hint hcl
+
+/-- `match E0() and E1()` followed by `send Hit()`, flow STARTED, E0 and E1 received: `h1` parked, `h2` MERGING (catch label of the group) -/
+def exVMMergingHit : CoreVM.VM :=
+  { ixs := exIxsMerging.apply (.setFlowStatus "m" .started) (by decide),
+    r := { prog := { flows := [exCfgAndHit] }, fx := [("m", exXFork)],
+           hx := [(("m", "h0"), { childHeadUids := ["h1", "h2"] }), (("m", "h2"), { catchLabels := ["f"] })] } }
+
+-- non-vacuity of `groupvm_is_corevm_partial_merge_real`
+example :=
+  groupvm_is_corevm_partial_merge_real 1 exVMMergingHit "m" { exInstMerging with status := .started } exXFork exCfgAndHit "e" "u" 13 2 2 "h0"
+    [("h1", 4), ("h2", 7)] [(0, .atWait), (1, .merging)] 1 ("h2", 7) 1 (exSpec "Hit") "Hit"
+    { hi := rfl, hx := rfl, hc := rfl } { hl := rfl, hsize := by decide, hw := rfl, hm := rfl } rfl rfl (by decide) rfl rfl
+    (by
+      intro j' m' h1 h2
+      rcases j' with _ | _ | j'
+      · simp at h1; subst h1; exact Or.inl rfl
+      · exact absurd rfl h2
+      · simp at h1)
+    rfl rfl (by intro c hc; simp at hc; rcases hc with rfl | rfl <;> rfl) (by decide) (by decide)
+    rfl rfl rfl (by decide) rfl rfl ⟨rfl, rfl, rfl⟩ rfl (by decide) rfl
+
+/-- **groupvm_is_corevm_partial (the merging loop's call of the real `_advance_head_front` on an or-group of single atoms, one branch
+    matched).**  The same as `groupvm_is_corevm_partial_merge_real` for the branch head that phase 1 (`…_advance_heads_or`) left MERGING
+    on the or-level `MergeHeads` while every other branch head still waits on its `match`: merge, nested call moving the forking head
+    onto the statement after the group, merged head detached; result `[forking head]`, the only head left, ACTIVE on the marker.  Any
+    number of branches.  (Several branches MERGING in the same event — the same atom twice, `random.choice` — are covered at the level
+    of `slide` by `…_or_event_all`, not through the real function.) -/
+theorem groupvm_is_corevm_partial_merge_real_or (fuel : Nat) (s : CoreVM.VM) (f : CoreIndex.FUid) (i : CoreIndex.Inst) (x : CoreVM.InstX)
+    (cfg : CoreVM.FlowCfg) (l mu : String) (pe fp : Nat)
+    (r : CoreIndex.HUid) (us : List (CoreIndex.HUid × Nat)) (ms : List Br) (j : Nat) (uj : CoreIndex.HUid × Nat)
+    (spec : CoreVM.Spec) (nm : String)
+    (F : CoreVM.FlowAt s f i x cfg) (C : CoreVM.OrShape cfg l mu pe)
+    (hv : CoreVM.hview i = (r, fp, CoreIndex.HeadStatus.inactive) :: CoreVM.renderB (pe + 1) us ms)
+    (hlen : us.length = ms.length) (hndu : (r :: us.map (·.1)).Nodup)
+    (hju : us[j]? = some uj) (hjm : ms[j]? = some Br.merging)
+    (hone : ∀ j' m', ms[j']? = some m' → j' ≠ j → ∃ a, m' = Br.single a)
+    (hfu : OMap.lookup mu x.forkUids = some r)
+    (hhx : ((OMap.lookup (f, r) s.r.hx).getD {}).childHeadUids = us.map (·.1))
+    (hleaf : ∀ c ∈ us.map (·.1), ((OMap.lookup (f, c) s.r.hx).getD {}).childHeadUids = [])
+    (hmu : mu ∉ us.map (·.1)) (hfp : fp ≠ pe + 1)
+    (hstarted : i.status = .started) (hq : s.r.queue = []) (hclr : s.r.cleared.contains (f, uj.1) = false)
+    (hsz4 : pe + 3 < cfg.elements.size) (hc1 : cfg.elements[pe + 2]! = .catchFail none) (hc2 : cfg.elements[pe + 3]! = .sendOp spec)
+    (hp : CoreVM.PlainSpec spec nm) (hargs : spec.args = []) (hint : CoreVM.internalEvents.contains nm = false)
+    (hcl : ((OMap.lookup (f, uj.1) s.r.hx).getD {}).catchLabels.isEmpty = false) :
+    ∃ s' i' x', CoreVM.advanceHeadFront (fuel + 5) [(f, uj.1)] s = .ok [(f, r)] s' ∧ CoreVM.FlowAt s' f i' x' cfg ∧
+      CoreVM.hview i' = [(r, pe + 3, CoreIndex.HeadStatus.active)] ∧ s'.r.queue = s.r.queue :=
+  CoreVM.or_group_merge_real fuel s f i x cfg l mu pe fp r us ms j uj spec nm F C hv hlen hndu hju hjm hone hfu hhx hleaf hmu hfp
+    hstarted hq hclr hsz4 hc1 hc2 hp hargs hint hcl
+
+/-- `match E0() or E1()` followed by `send Hit()`, flow STARTED, E1 received: `h1` still on `match E0()`, `h2` MERGING -/
+def exCfgOrHit : CoreVM.FlowCfg :=
+  { exCfgOr with elements := exCfgOr.elements ++ #[.sendOp (exSpec "Hit"), .matchOp (exSpec "Never") false] }
+def exIxsOrMerging : CoreVM.IxS :=
+  ((((((({} : CoreVM.IxS).apply (.addInst "m" "h0" none) (by decide)).apply (.setPos "m" "h0" 2 none) (by decide)).apply
+    (.setStatus "m" "h0" .inactive none) (by decide)).apply (.fork "m" "h1" none 4 none) (by decide)).apply
+    (.fork "m" "h2" none 15 none) (by decide)).apply (.setStatus "m" "h2" .merging none) (by decide)).apply
+    (.setFlowStatus "m" .started) (by decide)
+def exVMOrMergingHit : CoreVM.VM :=
+  { ixs := exIxsOrMerging,
+    r := { prog := { flows := [exCfgOrHit] }, fx := [("m", exXFork)],
+           hx := [(("m", "h0"), { childHeadUids := ["h1", "h2"] }), (("m", "h2"), { catchLabels := ["f"] })] } }
+
+-- non-vacuity of `groupvm_is_corevm_partial_merge_real_or`
+example :=
+  groupvm_is_corevm_partial_merge_real_or 1 exVMOrMergingHit "m"
+    { uid := "m", status := .started, heads := [
+      { uid := "h0", pos := 2, status := .inactive, elem := none }, { uid := "h1", pos := 4, status := .active, elem := none },
+      { uid := "h2", pos := 15, status := .merging, elem := none }] }
+    exXFork exCfgOrHit "e" "u" 14 2 "h0" [("h1", 4), ("h2", 7)] [.single 0, .merging] 1 ("h2", 7) (exSpec "Hit") "Hit"
+    { hi := rfl, hx := rfl, hc := rfl } { hl := rfl, hsize := by decide, hm := rfl } rfl rfl (by decide) rfl rfl
+    (by
+      intro j' m' h1 h2
+      rcases j' with _ | _ | j'
+      · simp at h1; subst h1; exact ⟨0, rfl⟩
+      · exact absurd rfl h2
+      · simp at h1)
+    rfl rfl (by intro c hc; simp at hc; rcases hc with rfl | rfl <;> rfl) (by decide) (by decide)
+    rfl rfl rfl (by decide) rfl rfl ⟨rfl, rfl, rfl⟩ rfl (by decide) rfl
+
+/-- **groupvm_is_corevm_partial (one event on a pure and-group through BOTH calls of the interpreter model's real `_advance_head_front`).**
+    Between two events (member heads on their `match` elements or parked, forking head INACTIVE, flow STARTED, event queue empty, nothing
+    cleared), a group statement followed by `CatchPatternFailure(None)` and the marker `send`.  Call 1 — `runToCompletion`'s handling of
+    the event, with the member heads that wait on `match e` — ends in the state `GroupVM.p1Members e |c| [] ms` describes and returns
+    `acts`.  If the event completes the clause (`remMs … = []`), `acts` is exactly the one MERGING member head, and call 2 — the merging
+    loop, with `acts` — merges the group and returns the forking head, the only head left, ACTIVE on the marker behind the group: the
+    object of `group_completes_at_first_sat` at the level of the real function, for one event, any clause size. -/
+theorem groupvm_is_corevm_partial_and_event_real (fuel : Nat) (s : CoreVM.VM) (f : CoreIndex.FUid) (i : CoreIndex.Inst) (x : CoreVM.InstX)
+    (cfg : CoreVM.FlowCfg) (l mu : String) (pe fp e : Nat)
+    (r : CoreIndex.HUid) (us : List (CoreIndex.HUid × Nat)) (ms : List (Nat × MLoc)) (spec : CoreVM.Spec) (nm : String)
+    (F : CoreVM.FlowAt s f i x cfg) (hown : x.ctxOwner = none) (C : CoreVM.ClauseShape cfg l mu pe ms.length)
+    (S : CoreVM.MembersShape cfg l pe us)
+    (hlen : us.length = ms.length) (hndu : (r :: us.map (·.1)).Nodup) (hq : QMs ms)
+    (hv : CoreVM.hview i = (r, fp, CoreIndex.HeadStatus.inactive) :: CoreVM.renderU (pe + 1) us ms)
+    (hfu : OMap.lookup mu x.forkUids = some r)
+    (hhx : ((OMap.lookup (f, r) s.r.hx).getD {}).childHeadUids = us.map (·.1))
+    (hleaf : ∀ c ∈ us.map (·.1), ((OMap.lookup (f, c) s.r.hx).getD {}).childHeadUids = [])
+    (hmu : mu ∉ us.map (·.1)) (hfp : fp ≠ pe + 2)
+    (hstarted : i.status = .started) (hrange : ∀ o ∈ i.heads, o.pos < cfg.elements.size)
+    (hqueue : s.r.queue = []) (hclr : s.r.cleared = [])
+    (hsz4 : pe + 4 < cfg.elements.size) (hc1 : cfg.elements[pe + 3]! = .catchFail none) (hc2 : cfg.elements[pe + 4]! = .sendOp spec)
+    (hp : CoreVM.PlainSpec spec nm) (hargs : spec.args = []) (hint : CoreVM.internalEvents.contains nm = false)
+    (hcl : ∀ c ∈ us.map (·.1), ((OMap.lookup (f, c) s.r.hx).getD {}).catchLabels.isEmpty = false) :
+    ∃ s1 i1 acts, CoreVM.advanceHeadFront (fuel + 4) ((CoreVM.matchingU e us ms).map fun h => (f, h)) s = .ok acts s1 ∧
+      CoreVM.FlowAt s1 f i1 x cfg ∧ s1.r = s.r ∧
+      CoreVM.hview i1 = (r, fp, CoreIndex.HeadStatus.inactive) :: CoreVM.renderU (pe + 1) us (p1Members e ms.length [] ms) ∧
+      (remMs (p1Members e ms.length [] ms) = [] → remMs ms ≠ [] →
+        ∃ (j : Nat) (uj : CoreIndex.HUid × Nat) (a : Nat), us[j]? = some uj ∧
+          (p1Members e ms.length [] ms)[j]? = some (a, MLoc.merging) ∧ acts = [(f, uj.1)] ∧
+          ∃ s2 i2 x2, CoreVM.advanceHeadFront (fuel + 5) acts s1 = .ok [(f, r)] s2 ∧ CoreVM.FlowAt s2 f i2 x2 cfg ∧
+            CoreVM.hview i2 = [(r, pe + 4, CoreIndex.HeadStatus.active)]) :=
+  CoreVM.and_group_event_real fuel s f i x cfg l mu pe fp e r us ms spec nm F hown C S hlen hndu hq hv hfu hhx hleaf hmu hfp
+    hstarted hrange hqueue hclr hsz4 hc1 hc2 hp hargs hint hcl
+
+/-- `match E0() and E1()` followed by `send Hit()`, flow STARTED, E0 received (`h1` parked), the fork registered, catch labels set -/
+def exVMEventReal : CoreVM.VM :=
+  { ixs := exIxsStartedWait,
+    r := { prog := { flows := [exCfgAndHit] }, fx := [("m", exXFork)],
+           hx := [(("m", "h0"), { childHeadUids := ["h1", "h2"] }), (("m", "h1"), { catchLabels := ["f"] }),
+                  (("m", "h2"), { catchLabels := ["f"] })] } }
+
+-- non-vacuity of `groupvm_is_corevm_partial_and_event_real`: event E1 completes the clause
+example :=
+  groupvm_is_corevm_partial_and_event_real 1 exVMEventReal "m" exInstStartedWait exXFork exCfgAndHit "e" "u" 13 2 1 "h0"
+    [("h1", 4), ("h2", 7)] [(0, .atWait), (1, .atMatch)] (exSpec "Hit") "Hit"
+    { hi := rfl, hx := rfl, hc := rfl } rfl
+    { hl := rfl, hsize := by decide, hw := rfl, hm := rfl }
+    (by intro u hu; simp at hu; rcases hu with rfl | rfl <;> exact ⟨rfl, by decide⟩)
+    rfl (by decide) (by intro m hm; simp at hm; rcases hm with rfl | rfl <;> simp)
+    rfl rfl rfl (by intro c hc; simp at hc; rcases hc with rfl | rfl <;> rfl) (by decide) (by decide)
+    rfl (by intro o ho; simp [exInstStartedWait] at ho; rcases ho with rfl | rfl | rfl <;> decide)
+    rfl rfl (by decide) rfl rfl ⟨rfl, rfl, rfl⟩ rfl (by decide)
+    (by intro c hc; simp at hc; rcases hc with rfl | rfl <;> rfl)
+example : remMs (p1Members 1 2 [] [(0, .atWait), (1, .atMatch)]) = [] ∧ remMs [(0, MLoc.atWait), (1, MLoc.atMatch)] ≠ [] := by decide
+
+/-- **groupvm_is_corevm_partial (one event on a pure or-group of single atoms through BOTH calls of the real `_advance_head_front`, one
+    branch matching).**  The hypotheses of `groupvm_is_corevm_partial_or_event`, exactly one branch head `uj` waits on `match e`, the flow
+    STARTED, queue empty, nothing cleared, the group followed by `CatchPatternFailure(None)` and the marker `send`.  Call 1 (event
+    handling, `[uj]`) ends in the state of `GroupVM.p1Brs` and hands `[uj]` back MERGING; call 2 (merging loop, `[uj]`) merges the group
+    and returns the forking head, the only head left, ACTIVE on the marker behind the group.  Any number of branches. -/
+theorem groupvm_is_corevm_partial_or_event_real (fuel : Nat) (s : CoreVM.VM) (f : CoreIndex.FUid) (i : CoreIndex.Inst) (x : CoreVM.InstX)
+    (cfg : CoreVM.FlowCfg) (l mu : String) (pe fp e : Nat)
+    (r : CoreIndex.HUid) (us : List (CoreIndex.HUid × Nat)) (brs : List Br) (j : Nat) (uj : CoreIndex.HUid × Nat)
+    (spec : CoreVM.Spec) (nm : String)
+    (F : CoreVM.FlowAt s f i x cfg) (hown : x.ctxOwner = none) (C : CoreVM.OrShape cfg l mu pe) (S : CoreVM.MembersShape cfg l pe us)
+    (hlen : us.length = brs.length) (hnm : CoreVM.noMulti brs = true) (hndu : (r :: us.map (·.1)).Nodup)
+    (hv : CoreVM.hview i = (r, fp, CoreIndex.HeadStatus.inactive) :: CoreVM.renderB (pe + 1) us brs)
+    (hju : us[j]? = some uj) (hjm : (p1Brs e 0 brs).1[j]? = some Br.merging)
+    (hone : ∀ j' m', (p1Brs e 0 brs).1[j']? = some m' → j' ≠ j → ∃ a, m' = Br.single a)
+    (hl1 : (p1Brs e 0 brs).1.length = brs.length)
+    (hmb : CoreVM.matchingB e us brs = [uj.1])
+    (hfu : OMap.lookup mu x.forkUids = some r)
+    (hhx : ((OMap.lookup (f, r) s.r.hx).getD {}).childHeadUids = us.map (·.1))
+    (hleaf : ∀ c ∈ us.map (·.1), ((OMap.lookup (f, c) s.r.hx).getD {}).childHeadUids = [])
+    (hmu : mu ∉ us.map (·.1)) (hfp : fp ≠ pe + 1)
+    (hstarted : i.status = .started) (hrange : ∀ o ∈ i.heads, o.pos < cfg.elements.size)
+    (hqueue : s.r.queue = []) (hclr : s.r.cleared = [])
+    (hsz4 : pe + 3 < cfg.elements.size) (hc1 : cfg.elements[pe + 2]! = .catchFail none) (hc2 : cfg.elements[pe + 3]! = .sendOp spec)
+    (hp : CoreVM.PlainSpec spec nm) (hargs : spec.args = []) (hint : CoreVM.internalEvents.contains nm = false)
+    (hcl : ((OMap.lookup (f, uj.1) s.r.hx).getD {}).catchLabels.isEmpty = false) :
+    ∃ s1 i1 s2 i2 x2, CoreVM.advanceHeadFront (fuel + 3) [(f, uj.1)] s = .ok [(f, uj.1)] s1 ∧ CoreVM.FlowAt s1 f i1 x cfg ∧
+      CoreVM.hview i1 = (r, fp, CoreIndex.HeadStatus.inactive) :: CoreVM.renderB (pe + 1) us (p1Brs e 0 brs).1 ∧
+      CoreVM.advanceHeadFront (fuel + 5) [(f, uj.1)] s1 = .ok [(f, r)] s2 ∧ CoreVM.FlowAt s2 f i2 x2 cfg ∧
+      CoreVM.hview i2 = [(r, pe + 3, CoreIndex.HeadStatus.active)] :=
+  CoreVM.or_group_event_real fuel s f i x cfg l mu pe fp e r us brs j uj spec nm F hown C S hlen hnm hndu hv hju hjm hone hl1 hmb
+    hfu hhx hleaf hmu hfp hstarted hrange hqueue hclr hsz4 hc1 hc2 hp hargs hint hcl
+
+/-- `match E0() or E1()` followed by `send Hit()`, flow STARTED, both branch heads on their match elements -/
+def exVMOrEventReal : CoreVM.VM :=
+  { ixs := exIxsStarted,
+    r := { prog := { flows := [exCfgOrHit] }, fx := [("m", exXFork)],
+           hx := [(("m", "h0"), { childHeadUids := ["h1", "h2"] }), (("m", "h2"), { catchLabels := ["f"] })] } }
+
+-- non-vacuity of `groupvm_is_corevm_partial_or_event_real`: event E1
+example :=
+  groupvm_is_corevm_partial_or_event_real 1 exVMOrEventReal "m" exInstStarted exXFork exCfgOrHit "e" "u" 14 2 1 "h0"
+    [("h1", 4), ("h2", 7)] [.single 0, .single 1] 1 ("h2", 7) (exSpec "Hit") "Hit"
+    { hi := rfl, hx := rfl, hc := rfl } rfl { hl := rfl, hsize := by decide, hm := rfl }
+    (by intro u hu; simp at hu; rcases hu with rfl | rfl <;> exact ⟨rfl, by decide⟩)
+    rfl rfl (by decide) rfl rfl rfl
+    (by
+      intro j' m' h1 h2
+      rcases j' with _ | _ | j'
+      · simp [p1Brs, p1Br] at h1; subst h1; exact ⟨0, rfl⟩
+      · exact absurd rfl h2
+      · simp [p1Brs, p1Br] at h1)
+    rfl rfl rfl rfl (by intro c hc; simp at hc; rcases hc with rfl | rfl <;> rfl) (by decide) (by decide)
+    rfl (by intro o ho; simp [exInstStarted, exInst] at ho; rcases ho with rfl | rfl | rfl <;> decide)
+    rfl rfl (by decide) rfl rfl ⟨rfl, rfl, rfl⟩ rfl (by decide) rfl
+
+/-- **groupvm_is_corevm_partial (`while heads_are_merging:` on an and-group).**  CoreVM's `mergeLoop` — `run_to_completion`'s merging
+    loop: drain the event queue, split the pending heads into MERGING and ACTIVE ones, call `_advance_head_front` with the MERGING ones,
+    repeat — started with the MERGING member head that phase 1 handed back (queue empty): one round calls the real function
+    (`groupvm_is_corevm_partial_merge_real`), the next round finds nothing MERGING and ends; the loop returns the forking head, the
+    only head left, ACTIVE on the marker behind the group — what `_resolve_action_conflicts` and the main loop get.  Any clause size. -/
+theorem groupvm_is_corevm_partial_merge_loop (fuel : Nat) (s : CoreVM.VM) (f : CoreIndex.FUid) (i : CoreIndex.Inst) (x : CoreVM.InstX)
+    (cfg : CoreVM.FlowCfg) (l mu : String) (pe n fp : Nat)
+    (r : CoreIndex.HUid) (us : List (CoreIndex.HUid × Nat)) (ms : List (Nat × MLoc)) (j : Nat) (uj : CoreIndex.HUid × Nat) (a : Nat)
+    (spec : CoreVM.Spec) (nm : String)
+    (F : CoreVM.FlowAt s f i x cfg) (C : CoreVM.ClauseShape cfg l mu pe n)
+    (hv : CoreVM.hview i = (r, fp, CoreIndex.HeadStatus.inactive) :: CoreVM.renderU (pe + 1) us ms)
+    (hlen : us.length = ms.length) (hndu : (r :: us.map (·.1)).Nodup)
+    (hju : us[j]? = some uj) (hjm : ms[j]? = some (a, MLoc.merging))
+    (hone : ∀ j' m', ms[j']? = some m' → j' ≠ j → m'.2 = MLoc.atWait ∨ m'.2 = MLoc.atMatch)
+    (hfu : OMap.lookup mu x.forkUids = some r)
+    (hhx : ((OMap.lookup (f, r) s.r.hx).getD {}).childHeadUids = us.map (·.1))
+    (hleaf : ∀ c ∈ us.map (·.1), ((OMap.lookup (f, c) s.r.hx).getD {}).childHeadUids = [])
+    (hmu : mu ∉ us.map (·.1)) (hfp : fp ≠ pe + 2)
+    (hstarted : i.status = .started) (hq : s.r.queue = []) (hclr : s.r.cleared.contains (f, uj.1) = false)
+    (hsz4 : pe + 4 < cfg.elements.size) (hc1 : cfg.elements[pe + 3]! = .catchFail none) (hc2 : cfg.elements[pe + 4]! = .sendOp spec)
+    (hp : CoreVM.PlainSpec spec nm) (hargs : spec.args = []) (hint : CoreVM.internalEvents.contains nm = false)
+    (hcl : ((OMap.lookup (f, uj.1) s.r.hx).getD {}).catchLabels.isEmpty = false) :
+    ∃ s' i' x', CoreVM.mergeLoop (fuel + 6) [(f, uj.1)] s = .ok [(f, r)] s' ∧ CoreVM.FlowAt s' f i' x' cfg ∧
+      CoreVM.hview i' = [(r, pe + 4, CoreIndex.HeadStatus.active)] :=
+  CoreVM.and_group_mergeLoop_real fuel s f i x cfg l mu pe n fp r us ms j uj a spec nm F C hv hlen hndu hju hjm hone hfu hhx hleaf hmu hfp
+    hstarted hq hclr hsz4 hc1 hc2 hp hargs hint hcl
+
+-- non-vacuity of `groupvm_is_corevm_partial_merge_loop`
+example :=
+  groupvm_is_corevm_partial_merge_loop 1 exVMMergingHit "m" { exInstMerging with status := .started } exXFork exCfgAndHit "e" "u" 13 2 2 "h0"
+    [("h1", 4), ("h2", 7)] [(0, .atWait), (1, .merging)] 1 ("h2", 7) 1 (exSpec "Hit") "Hit"
+    { hi := rfl, hx := rfl, hc := rfl } { hl := rfl, hsize := by decide, hw := rfl, hm := rfl } rfl rfl (by decide) rfl rfl
+    (by
+      intro j' m' h1 h2
+      rcases j' with _ | _ | j'
+      · simp at h1; subst h1; exact Or.inl rfl
+      · exact absurd rfl h2
+      · simp at h1)
+    rfl rfl (by intro c hc; simp at hc; rcases hc with rfl | rfl <;> rfl) (by decide) (by decide)
+    rfl rfl rfl (by decide) rfl rfl ⟨rfl, rfl, rfl⟩ rfl (by decide) rfl
+
+/-- **groupvm_is_corevm_partial (`while heads_are_merging:` on an or-group of single atoms, one branch matched).**  The same as
+    `groupvm_is_corevm_partial_merge_loop` for the one MERGING branch head: CoreVM's `mergeLoop` returns the forking head, the only head
+    left, ACTIVE on the marker behind the group.  Any number of branches. -/
+theorem groupvm_is_corevm_partial_merge_loop_or (fuel : Nat) (s : CoreVM.VM) (f : CoreIndex.FUid) (i : CoreIndex.Inst) (x : CoreVM.InstX)
+    (cfg : CoreVM.FlowCfg) (l mu : String) (pe fp : Nat)
+    (r : CoreIndex.HUid) (us : List (CoreIndex.HUid × Nat)) (ms : List Br) (j : Nat) (uj : CoreIndex.HUid × Nat)
+    (spec : CoreVM.Spec) (nm : String)
+    (F : CoreVM.FlowAt s f i x cfg) (C : CoreVM.OrShape cfg l mu pe)
+    (hv : CoreVM.hview i = (r, fp, CoreIndex.HeadStatus.inactive) :: CoreVM.renderB (pe + 1) us ms)
+    (hlen : us.length = ms.length) (hndu : (r :: us.map (·.1)).Nodup)
+    (hju : us[j]? = some uj) (hjm : ms[j]? = some Br.merging)
+    (hone : ∀ j' m', ms[j']? = some m' → j' ≠ j → ∃ a, m' = Br.single a)
+    (hfu : OMap.lookup mu x.forkUids = some r)
+    (hhx : ((OMap.lookup (f, r) s.r.hx).getD {}).childHeadUids = us.map (·.1))
+    (hleaf : ∀ c ∈ us.map (·.1), ((OMap.lookup (f, c) s.r.hx).getD {}).childHeadUids = [])
+    (hmu : mu ∉ us.map (·.1)) (hfp : fp ≠ pe + 1)
+    (hstarted : i.status = .started) (hq : s.r.queue = []) (hclr : s.r.cleared.contains (f, uj.1) = false)
+    (hsz4 : pe + 3 < cfg.elements.size) (hc1 : cfg.elements[pe + 2]! = .catchFail none) (hc2 : cfg.elements[pe + 3]! = .sendOp spec)
+    (hp : CoreVM.PlainSpec spec nm) (hargs : spec.args = []) (hint : CoreVM.internalEvents.contains nm = false)
+    (hcl : ((OMap.lookup (f, uj.1) s.r.hx).getD {}).catchLabels.isEmpty = false) :
+    ∃ s' i' x', CoreVM.mergeLoop (fuel + 6) [(f, uj.1)] s = .ok [(f, r)] s' ∧ CoreVM.FlowAt s' f i' x' cfg ∧
+      CoreVM.hview i' = [(r, pe + 3, CoreIndex.HeadStatus.active)] :=
+  CoreVM.or_group_mergeLoop_real fuel s f i x cfg l mu pe fp r us ms j uj spec nm F C hv hlen hndu hju hjm hone hfu hhx hleaf hmu hfp
+    hstarted hq hclr hsz4 hc1 hc2 hp hargs hint hcl
+
+-- non-vacuity of `groupvm_is_corevm_partial_merge_loop_or`
+example :=
+  groupvm_is_corevm_partial_merge_loop_or 1 exVMOrMergingHit "m"
+    { uid := "m", status := .started, heads := [
+      { uid := "h0", pos := 2, status := .inactive, elem := none }, { uid := "h1", pos := 4, status := .active, elem := none },
+      { uid := "h2", pos := 15, status := .merging, elem := none }] }
+    exXFork exCfgOrHit "e" "u" 14 2 "h0" [("h1", 4), ("h2", 7)] [.single 0, .merging] 1 ("h2", 7) (exSpec "Hit") "Hit"
+    { hi := rfl, hx := rfl, hc := rfl } { hl := rfl, hsize := by decide, hm := rfl } rfl rfl (by decide) rfl rfl
+    (by
+      intro j' m' h1 h2
+      rcases j' with _ | _ | j'
+      · simp at h1; subst h1; exact ⟨0, rfl⟩
+      · exact absurd rfl h2
+      · simp at h1)
+    rfl rfl (by intro c hc; simp at hc; rcases hc with rfl | rfl <;> rfl) (by decide) (by decide)
+    rfl rfl rfl (by decide) rfl rfl ⟨rfl, rfl, rfl⟩ rfl (by decide) rfl
 
 end NemoVerif.C07
